@@ -17,18 +17,19 @@ HOOKS = {
 ENGINES = [
     {"name": "core", "path": "vlib/core.py", "serves_properties": ["*"], "kind_free_text": "runner: seeds, tiers, 16-worker sharding, time budgets, evidence (classes, evaluations), known-finding matching, replay files"},
     {"name": "pkt", "path": "vlib/pkt.py, vlib/pktx.py", "serves_properties": ["C01", "C02", "C03", "C04"], "kind_free_text": "packet-layer bench: un-started Transports keyed through the production activation path on scripted sockets (read fragmentation, timeouts, partial sends); long-lived and concurrent senders; reference peers built on refssh"},
-    {"name": "net+peers", "path": "vlib/net.py, vlib/peers.py", "serves_properties": ["C05", "C06", "C07", "C08", "C09", "C10", "C11", "C12", "C13", "C14", "C15", "C16", "C17", "C18", "C19", "C20", "C21", "C22", "C23", "C38"], "kind_free_text": "in-memory duplex link with hold/filter/fragmentation/fault injection; recording puppet peer; recording ServerInterface; refssh-based Tap that decrypts the live stream independently"},
-    {"name": "mitm", "path": "vlib/mitm.py, vlib/lying.py, vlib/refkex.py", "serves_properties": ["C05", "C06", "C07", "C08", "C09"], "kind_free_text": "PlainMitm for the unencrypted part of a handshake (refssh parsing/re-framing); lying / editing non-tested servers and lying signers for re-exchanges; honest reference kex servers that can steer the shape of the shared secret"},
+    {"name": "net+peers", "path": "vlib/net.py, vlib/peers.py", "serves_properties": ["C04", "C05", "C06", "C07", "C08", "C09", "C10", "C11", "C12", "C13", "C14", "C15", "C16", "C17", "C18", "C19", "C20", "C21", "C22", "C23", "C38"], "kind_free_text": "in-memory duplex link with hold/filter/fragmentation/fault injection and a send-side-full mode (peer stopped reading); recording puppet peer; recording ServerInterface; refssh-based Tap that decrypts the live stream independently"},
+    {"name": "mitm", "path": "vlib/mitm.py, vlib/lying.py, vlib/refkex.py", "serves_properties": ["C04", "C05", "C06", "C07", "C08", "C09"], "kind_free_text": "PlainMitm for the unencrypted part of a handshake (refssh parsing/re-framing); lying / editing non-tested servers and lying signers for re-exchanges; honest reference kex servers that can steer the shape of the shared secret"},
     {"name": "authkit", "path": "vlib/authkit.py", "serves_properties": ["C14", "C15", "C16", "C17"], "kind_free_text": "RFC 4252/4256/4462 client-side message builders and signatures made with refssh + cryptography (no paramiko Message/PKey); harness-built certificates; sentinel ordering"},
-    {"name": "sched", "path": "vlib/sched.py, vlib/chanbench.py", "serves_properties": ["C19", "C20", "C21", "C22", "C23", "C24", "C25", "C26"], "kind_free_text": "deterministic baton scheduler for real code on real threads (cooperative locks/conditions/events, line-level switch points, virtual clock, generated preemption lists, bounded-preemption enumeration, deadlock classification); real Channel on a fake transport"},
+    {"name": "sched", "path": "vlib/sched.py, vlib/chanbench.py", "serves_properties": ["C19", "C20", "C21", "C22", "C23", "C24", "C25", "C26", "C34"], "kind_free_text": "deterministic baton scheduler for real code on real threads (cooperative locks/conditions/events, line-level switch points, virtual clock, generated preemption lists, bounded-preemption enumeration, deadlock classification); real Channel on a fake transport"},
     {"name": "sftpenv", "path": "vlib/sftpenv.py, vlib/sftpwatch.py", "serves_properties": ["C27", "C28", "C29", "C30", "C31", "C32"], "kind_free_text": "production SFTPServer+SFTPClient over a socketpair with fault plans and a raw packet client; watchdog helpers (guarded calls, state-based deadlock proof)"},
     {"name": "keys", "path": "vlib/keys.py, vlib/keymat.py, vlib/keyedit.py", "serves_properties": ["C35", "C36", "C37", "C41"], "kind_free_text": "bundled key pool and independent reference public keys / strict signature verifier (cryptography); constructed key material with special encodings and an independent legacy-PEM writer; structure-aware edits of key material inside private key files"},
+    {"name": "subrun", "path": "vlib/subrun.py", "serves_properties": ["C08"], "kind_free_text": "child-interpreter runs: cases of a check module re-executed through its replay() in a fresh child process started with chosen interpreter flags (e.g. python -O) and a chosen case history; cases, counts and violations are folded back into the parent's evidence, a child that fails is an inconclusive entry, never a verdict"},
     {"name": "refssh", "path": "vlib/refssh.py", "serves_properties": ["C01", "C02", "C03", "C04", "C05", "C06", "C07", "C08", "C09", "C10", "C11", "C12", "C13", "C14", "C15", "C16", "C17", "C18", "C19", "C20", "C21", "C22", "C23", "C33", "C35", "C36", "C37", "C38", "C39", "C45"], "kind_free_text": "independent RFC 4251/4253 reference codec+KDF (no paramiko imports) used as differential oracle"},
 ]
 
 NOTES = (
     "All checks are property-based tests / fuzzers (hypothesis generators, stateful machines, enumerated finite sub-domains, "
-    "generated schedules and fault plans) against explicit oracles. VERIF_SEED selects the hypothesis seed; thorough tier shards "
+    "generated schedules and fault plans, child-interpreter sub-runs) against explicit oracles. VERIF_SEED selects the hypothesis seed; thorough tier shards "
     "over 16 worker processes with derived seeds. Case counts quoted per check are the configured totals (thorough: summed over the 16 workers); "
     "every check also has a wall-clock budget per tier that skips the remaining draws when reached (budget_hit in the evidence). "
     "Exit 2 + HARNESS-ERROR means the machinery failed, not the property."
@@ -39,26 +40,31 @@ PBT = "property-based testing (hypothesis)"
 CHECKS = {
     "C39": {
         "engine": "refssh",
-        "technique": PBT + ": round-trip + differential against an independent RFC 4251 encoder, over call histories within one process",
+        "technique": PBT + ": round-trip + differential against an independent RFC 4251 encoder, over call histories within one process, plus run-length described fields of up to 2 MiB (8 MiB thorough)",
         "text": "Generated sequences of <= 30 typed fields (byte, boolean, uint32/64, adaptive int, string, text, name-lists incl. non-ASCII names, mpint dense at sign/byte boundaries up to 4096 bits) are "
         "written with Message.add_* and read back with interleaved so_far/remainder/rewind probes: values equal in order, so_far + remainder == whole message, bytes == an independent RFC 4251 encoder "
-        "(mpint minimal two's complement, zero = empty string), deflate_long/inflate_long round-trip. Each case is a history: side calls of deflate_long / inflate_long in both modes and writes on a second "
-        "Message are interleaved, fields repeat earlier integers, and a quarter of the cases build and read the message twice. Exploration, not proof: 5k (quick) / ~1M (thorough) cases.",
-        "note": "Trusts vlib/refssh.py's RFC 4251 encoders (60 lines, built on int.to_bytes) and hypothesis' generators; adaptive-int "
-        "encoding above 0xFF000000 is paramiko-specific and only round-trip checked. Violations that depend on state carried over from earlier examples of the process are re-confirmed in a fresh process.",
+        "(mpint minimal two's complement, zero = empty string), deflate_long/inflate_long round-trip. Each case is a history: side calls of deflate_long / inflate_long in both modes and writes on a "
+        "second Message are interleaved, fields repeat earlier integers, and a quarter of the cases build and read the message twice. A second exploration places 1-2 huge fields (string, multi-byte "
+        "text, name-list with one huge name or with n names; n around every power of two up to 2^21, thorough 2^23) among ordinary ones: the fields that follow must read back unchanged too. "
+        "Exploration, not proof: ~4k (quick) / ~1M (thorough) cases.",
+        "note": "Trusts vlib/refssh.py's RFC 4251 encoders (60 lines, built on int.to_bytes) and hypothesis' generators; adaptive-int encoding above 0xFF000000 is paramiko-specific and only round-trip "
+        "checked. Violations that depend on state carried over from earlier examples of the process are re-confirmed in a fresh process.",
     },
 }
 
 CHECKS["C12"] = {
     "engine": "net+peers",
-    "technique": PBT + ": exhaustive type x role enumeration with generated payloads, rekey timing and logging configuration against a recording puppet peer; sentinel-ordered reply oracle",
-    "text": "Every message type 0..255 without a handler in the tested role (client and server, post-auth; the handled set is read from the live dispatch tables) is sent by a recording puppet peer "
-    "with generated payloads of 0-300 bytes, followed by a sentinel request; everything the tested side sends up to the sentinel's answer must be exactly one UNIMPLEMENTED carrying the probe's "
-    "sequence number (nothing for a probe of type 3), and a channel round trip must still work. Probes also arrive right after a completed re-exchange or crossing the tested side's own KEXINIT, and "
-    "sessions run under generated logging configurations (logger / log-channel level, logging.disable at DEBUG..CRITICAL). Type x role is enumerated completely in every tier (sharded in thorough); payloads, timing, "
-    "logging and multi-probe sessions are sampled (80 quick, ~13k thorough).",
-    "note": "The puppet peer is itself a paramiko Transport (handshake/encryption by production code) whose inbound non-kex messages are only logged; "
-    "probe sequence numbers come from the puppet's packetizer. DISCONNECT/IGNORE/DEBUG have dedicated semantics and are outside 'unrecognised'. Only the post-authentication state is probed.",
+    "technique": PBT + ": exhaustive type x role enumeration with generated payloads, rekey timing, logging configuration and lengths of uninterrupted runs of unhandled messages (storms, one full sweep per role) "
+    "against a recording puppet peer; sentinel-ordered reply oracle",
+    "text": "Every message type 0..255 without a handler in the tested role (client and server, post-auth; the handled set is read from the live dispatch tables) is sent by a recording puppet peer with "
+    "generated payloads of 0-300 bytes. Probes arrive in runs without any recognised message in between - length 1, 2-6, storms of 2-600 (thorough ..3000) probes cycling a drawn pattern, and per "
+    "role one sweep of every unhandled type - followed by one sentinel request: up to the sentinel's answer the tested side must send exactly one UNIMPLEMENTED per probe, in order, carrying that "
+    "probe's sequence number (nothing for a probe of type 3), and a channel round trip must still work. Probes also arrive right after a completed re-exchange or crossing the tested side's own "
+    "KEXINIT, and sessions run under generated logging configurations. Type x role is enumerated completely in every tier (sharded in thorough); the rest is sampled (~130 sessions quick, ~17.6k "
+    "thorough).",
+    "note": "The puppet peer is itself a paramiko Transport (handshake/encryption by production code) whose inbound non-kex messages are only logged; probe sequence numbers come from the puppet's "
+    "packetizer. DISCONNECT/IGNORE/DEBUG have dedicated semantics and are outside 'unrecognised'. Only the post-authentication state is probed. A re-exchange before a probe ends the run before "
+    "it.",
 }
 
 NOT_APPLICABLE = {}
@@ -68,25 +74,26 @@ def _add(pid, engine, technique, text, note, category="exploration"):
     CHECKS[pid] = {"engine": engine, "technique": technique, "text": text, "note": note, "category": category}
 
 
-_add(
-    "C33", "refssh",
-    PBT + ": round-trip + independent wire-layout parse (filexfer-02) of generated attribute sets",
-    "Pairs of generated attribute sets (all presence combinations of size / uid+gid / mode / atime+mtime / extended, values dense at 0, 2^31, 2^32, 2^63, 2^64-1, int or float times, bytes/str extended "
-    "maps of 0-5 entries) are packed one after the other from one reused SFTPAttributes; 0-4 read-only observations (str, repr, asbytes, Message.add_string) may be applied to source or decoded objects "
-    "in between. The wire bytes are parsed by the independent refssh Reader against the filexfer-02 flag bits and layout, decoded with _from_msg, compared field by field (still equal after the "
-    "observers), and re-encoded to identical bytes; the source's _flags equal the expected bits. Exploration: 3.6k quick / 1.6M thorough cases.",
-    "Trusts refssh.Reader and the harness' flag table (copied from draft-ietf-secsh-filexfer-02). Decoding into a dirty object is not generated "
-    "(paramiko never does that); stale state is covered by re-filling and re-packing one object. An observer that raises is only counted.",
-)
-_add(
-    "C34", "core",
-    PBT + ": grammar-based path generation (single paths and short histories on one server-interface instance), validity predicate (independent stack walk + os.path.commonpath)",
-    "Path strings from a grammar over '/', '//', '///', '.', '..', '...', names, dotted names and empty components (<= 40 tokens, repeated separators) plus arbitrary unicode text (NUL, backslashes, "
-    "surrogates) spliced with traversal tokens go through the default canonicalize(); the result must be a str starting with '/', free of '.' / '..' components, without empty components, and for several "
-    "served roots an independent stack walk never pops below the root and commonpath(root, normpath(root + out)) is the root. Also sequences of 2-5 paths on ONE SFTPServerInterface instance, later paths "
-    "derived from the previous canonical result. 6.5k cases quick, 2.2M thorough.",
-    "Pure function, no session involved. Exactly two leading slashes are accepted (POSIX keeps '//x' distinct), as are '/' and '//'. The 'no empty component' clause comes from DESIGN.md and has its own clause name.",
-)
+_add("C33", "refssh", PBT + ": round-trip + independent wire-layout parse (filexfer-02) of generated attribute sets, decoded through all three _from_msg call forms incl. directory-listing entries with independently "
+     "generated longnames",
+     "Pairs of generated attribute sets (all presence combinations of size / uid+gid / mode / atime+mtime / extended, values dense at 0, 2^31, 2^32, 2^63, 2^64-1, int or float times, bytes/str "
+     "extended maps of 0-5 entries) are packed one after the other from one reused SFTPAttributes; 0-4 read-only observations (str, repr, asbytes, Message.add_string) may be applied to source or "
+     "decoded objects in between. The wire bytes are parsed by the independent refssh Reader against the filexfer-02 flag bits and layout, decoded with _from_msg(msg), _from_msg(msg, filename) or "
+     "the listing form _from_msg(msg, filename, longname) - the block embedded in an entry stream with a longname unrelated to it -, compared field by field (still equal after the observers; "
+     "fields absent from the block stay None whatever the longname says) and re-encoded to identical bytes; the decoder consumes exactly the block; the source's _flags equal the expected bits. "
+     "Exploration: 3.6k quick / 1.6M thorough cases.",
+     "Trusts refssh.Reader and the harness' flag table (copied from draft-ietf-secsh-filexfer-02). Decoding into a dirty object is not generated (paramiko never does that); stale state is covered "
+     "by re-filling and re-packing one object. An observer that raises is only counted.")
+_add("C34", "core+sched", PBT + ": grammar-based and run-length (up to ~10^5 components) path generation, short histories on one server-interface instance, and concurrent calls on one shared instance (deterministic "
+     "scheduler with bytecode-level switch points + real-thread stress); validity predicate (independent stack walk + os.path.commonpath) on every single result",
+     "Path strings from a grammar over '/', '//', '///', '.', '..', '...', names, dotted names and empty components (<= 40 tokens, repeated separators) plus arbitrary unicode text (NUL, "
+     "backslashes, surrogates) spliced with traversal tokens go through the default canonicalize(); the result must be a str starting with '/', free of '.' / '..' components, without empty "
+     "components, and for several served roots an independent stack walk never pops below the root and commonpath(root, normpath(root + out)) is the root. Also: run-length built paths (a segment "
+     "repeated up to 2^14 times quick / 2^18 thorough) plus a grammar tail; sequences of 2-5 paths on one SFTPServerInterface instance, later paths derived from the previous result; 2-3 threads x "
+     "1-3 paths on one shared instance under the deterministic scheduler (switch point = every bytecode instruction executed in sftp_si.py, <= 3 preemptions) and as real threads at switch interval "
+     "1e-6. ~8.7k evaluations quick, ~2M cases thorough.",
+     "Pure function, no session involved. Exactly two leading slashes are accepted (POSIX keeps '//x' distinct), as are '/' and '//'. The 'no empty component' clause comes from DESIGN.md and has "
+     "its own clause name. Real-thread interleavings are whatever the interpreter produces; no verdict depends on timing, every result is judged by the same predicate.")
 _add(
     "C42", "core",
     PBT + ": differential testing against io.BytesIO (reads, incl. universal-newline translation and timeout-interrupted sized reads) and a prefix/complete-delivery model (writes)",
@@ -108,49 +115,46 @@ _add(
     "Only ModulusPack is exercised (kex_gex clamps min to prefer before calling it; that is outside C43's anchor). The reference rule is ~30 lines in props/c43.py. 'Size' of a group is the bit length "
     "of its modulus (RFC 4419). get_modulus picks at random among equal sizes, hence 20 calls per request.",
 )
-_add(
-    "C44", "core",
-    PBT + ": generated source scripts (custom and stock source classes, repeated / equal / unhashable source objects), exact-history oracle (order, stop at first success, identity of recorded outcomes)",
-    "1-3 authenticate() calls on one AuthStrategy object per case, each with its own script of 0-8 attempts behind a generator-based get_sources: an attempt returns a generated value or raises one of 10 exception types, and is a fresh harness source, "
-    "the same object as an earlier attempt, an equal-but-distinct or unhashable object, or an instance of a stock paramiko.auth_strategy class (NoneAuth, Password, InMemoryPrivateKey, OnDiskPrivateKey, "
-    "subclasses) driven through a scripted fake transport. Pulls and calls are logged: sources are called in order, each once, with the given transport; nothing after the first success is pulled; the "
-    "returned AuthResult / AuthFailure.result lists one SourceResult per attempt with the very source object and the very exception instance or value. 4.5k cases quick, 1.6M thorough.",
-    "No real transport involved: stock source classes talk to a fake transport whose auth_none / auth_password / auth_publickey outcomes are scripted per user name. Recorded sources and outcomes are "
-    "compared by identity; the outcome of a call must not depend on earlier calls on the same strategy object.",
-)
-_add(
-    "C45", "refssh",
-    PBT + ": fake agent connection; request bytes parsed by an independent reader; reply fuzzing (every reply type, well-formed and random signatures, chunked recv, EOF at any offset, huge frames) over request histories on one connection",
-    "A fake agent lists one identity: a pool key blob (RSA, ECDSA, Ed25519), a certificate blob, or an unknown key type. A case is a history of 1-4 sign_ssh_data calls on one AgentKey, each with its own "
-    "algorithm (omitted, None, every RSA/cert name, other types, near misses, random text), data of 0-5000 bytes and agent reply: type 14 with random or well-formed signatures around the nominal size, "
-    "any other type 0..255, zero-length, EOF at any offset, optionally padded to frames around 64 KiB / 256 KiB / 1 MiB, handed out in generated chunks. The bytes written are parsed with refssh.Reader: "
-    "exact framing, expected blob, identical data, flags 2 / 4 only for the rsa-sha2-256 / -512 names; type 14 => the signature returned byte-identical; anything else => SSHException. 3.2k cases quick, "
-    "960k thorough.",
-    "Public blobs are derived with `cryptography`, certificates come from tests/_support. For RSA certificates AgentKey deliberately sends the plain key blob; the oracle "
-    "requires key.asbytes() == independently extracted (e,n) blob. A reply cut off by EOF ends the connection and therefore the history.",
-)
-_add(
-    "C10", "net+peers",
-    PBT + ": generated traffic programs on scaled-down rekey thresholds x session stage x compression x segmenting link; wire-log oracle via independent decryption and inflation (Tap)",
-    "Transport(packetizer_class=SmallPacketizer) lowers only the four rekey class constants (20-200 packets, 4-64 KiB). Generated programs of 4-40 steps (data either/both ways, IGNORE bursts, "
-    "keepalive idle, crossing by a keepalive; before authentication: IGNOREs, keepalives, failed password attempts) x role x 4 cipher/MAC classes x none/zlib/zlib@openssh.com x an inbound link that "
-    "delivers selected packets in two parts with an idle timeout between (also while a rekey is pending). In the independently decoded wire log every (direction, epoch) that reached a threshold must "
-    "be ended by NEWKEYS, started by the tested side, never prematurely, with traffic intact. A puppet that swallows KEXINIT and keeps sending must get the tested side dropped within the overflow "
-    "allowance (+20 packets) and not before. Real threads: ~50 sessions quick, ~7k thorough.",
-    "Timing: 'never' is judged after 12 s (120x the 0.1 s poll) and three failing runs. Peer bursts are clipped below the overflow allowance (paramiko counts it from the moment it wants to rekey). "
-    "Only the tested side has lowered thresholds; paramiko's own counters are not read by the oracle (need_rekey() paces the harness only).",
-)
-_add(
-    "C11", "net+peers",
-    PBT + ": forced crossing orders with a latency-held link; exhaustive M-kind x role enumeration + generated remaining dimensions; concurrent-sender storms with stalled senders; Tap-decoded wire-order oracle",
-    "The peer's in-flight connection-layer message(s) M (24 kinds incl. replies to an open issued before the exchange and the tested side's own keepalive; both roles) are held on the link, the tested "
-    "side's KEXINIT is triggered (explicit, threshold, crossing, peer), user operations (send, stream, global request, exec, open, port forward, renegotiate_keys) are started right after its KEXINIT or "
-    "at its NEWKEYS, then M and the rest are released in generated portions through a generated recv fragmentation plan. In the independently decrypted ordered log only types 1..49 may occur between "
-    "KEXINIT and NEWKEYS, the exchange completes, both sides stay active, queued operations complete, due replies appear after NEWKEYS. Storm family: 2-16 threads stream records over 1-3 (thorough <= 40) "
-    "consecutive exchanges, optionally stalled at the packetizer entry; per channel the wire carries exactly the records sent. Kind x role is enumerated every run (~250 cases quick).",
-    "clear_to_send_timeout is set on the tested instance (time scale only). The peer is protocol-conformant (M always precedes its KEXINIT). Real-thread interleavings inside Transport.run are influenced "
-    "(held link, stalled senders), not owned; free-running storms leave them to the interpreter. Failing multi-component cases are re-run per component to name single root causes.",
-)
+_add("C44", "core", PBT + ": generated source scripts (custom and stock source classes, repeated / equal / unhashable source objects, exceptions built from generated argument tuples), exact-history oracle (order, stop "
+     "at first success, identity of recorded outcomes)",
+     "1-3 authenticate() calls on one AuthStrategy object per case, each with its own script of 0-8 attempts behind a generator-based get_sources: an attempt returns a generated value or raises "
+     "one of 12 exception types built with one message string or an argument tuple of 0-3 str / int / None / bytes / list values (argument-less, non-string args), and is a fresh harness source, "
+     "the same object as an earlier attempt, an equal-but-distinct or unhashable object, or an instance of a stock paramiko.auth_strategy class (NoneAuth, Password, InMemoryPrivateKey, "
+     "OnDiskPrivateKey, subclasses) driven through a scripted fake transport. Pulls and calls are logged: sources are called in order, each once, with the given transport; nothing after the first "
+     "success is pulled; the returned AuthResult / AuthFailure.result lists one SourceResult per attempt with the very source object and the very exception instance or value; no other exception "
+     "escapes. 4.5k cases quick, 1.6M thorough.",
+     "No real transport involved: stock source classes talk to a fake transport whose auth_none / auth_password / auth_publickey outcomes are scripted per user name. Recorded sources and outcomes "
+     "are compared by identity; the outcome of a call must not depend on earlier calls on the same strategy object.")
+_add("C45", "refssh", PBT + ": fake agent connection; request bytes parsed by an independent reader; reply fuzzing (every reply type, well-formed and random signatures, chunked recv, EOF at any offset, huge frames) over "
+     "request histories on one connection, incl. the caller dropping the agent object and keeping only the key",
+     "A fake agent lists one identity: a pool key blob (RSA, ECDSA, Ed25519), a certificate blob, or an unknown key type. A case is a history of 1-4 sign_ssh_data calls on one AgentKey, each with "
+     "its own algorithm (omitted, None, every RSA/cert name, other types, near misses), data of 0-5000 bytes and agent reply: type 14 with random or well-formed signatures around the nominal size, "
+     "any other type 0..255, zero-length, EOF at any offset, optionally padded to frames around 64 KiB / 256 KiB / 1 MiB, handed out in generated chunks. In a sixth of the cases the caller drops "
+     "the agent object mid-history and the garbage collector runs; the key must go on signing. The bytes written are parsed with refssh.Reader: exact framing, expected blob, identical data, flags "
+     "2 / 4 only for the rsa-sha2-256 / -512 names; type 14 => the signature returned byte-identical; anything else => SSHException. 3.2k cases quick, 960k thorough.",
+     "Public blobs are derived with `cryptography`, certificates come from tests/_support. For RSA certificates AgentKey deliberately sends the plain key blob; the oracle requires key.asbytes() == "
+     "independently extracted (e,n) blob. A reply cut off by EOF ends the connection and therefore the history.")
+_add("C10", "net+peers", PBT + ": generated traffic programs on scaled-down rekey thresholds x session stage x compression x strict-kex agreement x segmenting link, incl. peer requests in flight behind the threshold "
+     "KEXINIT; wire-log oracle via independent decryption and inflation (Tap)",
+     "Transport(packetizer_class=SmallPacketizer) lowers only the four rekey class constants (20-200 packets, 4-64 KiB). Generated programs of 4-40 steps (data either/both ways, IGNORE bursts, "
+     "keepalive idle, crossing by a keepalive, 1-96 peer opens / exec requests in flight behind the tested side's threshold KEXINIT; before authentication: IGNOREs, keepalives, failed password "
+     "attempts) x role x 4 cipher/MAC classes x none/zlib/zlib@openssh.com x strict kex agreed or off on either side x an inbound link that delivers selected packets in two parts with an idle "
+     "timeout between (also while a rekey is pending). In the independently decoded wire log every (direction, epoch) that reached a threshold must be ended by NEWKEYS, started by the tested side, "
+     "never prematurely, with traffic intact and every in-flight request answered once. A puppet that swallows KEXINIT and keeps sending must get the tested side dropped within the overflow "
+     "allowance (+20 packets) and not before. Real threads: ~50 sessions quick, ~7.4k thorough.",
+     "Timing: 'never' is judged after 12 s (120x the 0.1 s poll) and three failing runs. Peer bursts and request counts are clipped below the overflow allowance (paramiko counts it from the moment "
+     "it wants to rekey). Only the tested side has lowered thresholds; paramiko's own counters are not read by the oracle (need_rekey() paces the harness only).")
+_add("C11", "net+peers", PBT + ": forced crossing orders with a latency-held link; exhaustive M-kind x role enumeration + generated remaining dimensions (queued operations, fragmentation, bulk streams filling the receive "
+     "window); concurrent-sender storms with stalled senders; Tap-decoded wire-order oracle",
+     "The peer's in-flight connection-layer message(s) M (24 kinds incl. replies to an earlier open and the tested side's own keepalive; both roles) are held on the link, the tested side's KEXINIT "
+     "is triggered, user operations (send, stream, global request, exec, open, port forward, renegotiate_keys, reading a bulk stream) are started right after its KEXINIT or at its NEWKEYS, then "
+     "everything is released in portions through a recv fragmentation plan. Bulk dimension: a window-respecting puppet has 25-100 % of a 32-64 KiB receive window in flight behind the KEXINIT and "
+     "continues afterwards; the reader must get every byte. In the independently decrypted ordered log only types 1..49 occur between KEXINIT and NEWKEYS, the exchange completes, queued operations "
+     "complete, due replies follow NEWKEYS. Storm family: 2-16 threads stream records over 1-3 (thorough <= 40) exchanges, optionally stalled at the packetizer entry; the wire carries exactly the "
+     "records sent. Kind x role is enumerated every run (~260 cases quick; thorough ~6k more).",
+     "clear_to_send_timeout is set on the tested instance (time scale only). The peer is protocol-conformant (M always precedes its KEXINIT). Real-thread interleavings inside Transport.run are "
+     "influenced (held link, stalled senders), not owned; free-running storms leave them to the interpreter. A sender left without window is reported after 12 s. Failing multi-component cases are "
+     "re-run per component to name single root causes.")
 
 _add("C01", "pkt+refssh", PBT + ": generated duplex packet-layer sessions (rekey histories, per-direction suites, scripted socket faults on the read and send side, long-lived and concurrent senders); "
      "paramiko<->paramiko equality plus differential against an independent RFC 4253 codec in both directions",
@@ -161,87 +165,117 @@ _add("C01", "pkt+refssh", PBT + ": generated duplex packet-layer sessions (rekey
      "and refssh-produced streams under paramiko. Quick ~650 sessions; thorough gives every one of the 216 cipher x MAC x compression triples >= 40 sessions (up to ~80k in all).",
      "Trusts vlib/refssh.py (validated against the fixed vector of tests/test_packetizer.py and by interop). Receivers are fed complete packets; scripted timeouts occur only while unread bytes are "
      "buffered. Thread interleavings of the concurrent senders are whatever the interpreter produces under a generated switch interval (not owned). GCM invocation-counter wrap at 2^64 is not reachable by generation.")
-_add("C02", "pkt+refssh", "fault enumeration: every single-byte flip/delete/insert position of recorded encrypted streams, every cross-epoch packet pair x {replay, substitute, swap}, structured replay "
-     "distances on long streams, plus hypothesis-generated multi-fault plans; unmodified-prefix oracle",
-     "Streams are recorded from a production-keyed paramiko sender for every framing class (CTR/CBC/3DES x plain/-96/ETM MAC, GCM; with and without zlib, optional mid-stream rekey, strict kex); the "
-     "receiver is keyed in both directions with different suites (all 9 style pairs). Enumerated per stream: every single-byte XOR, deletion and insertion position; on streams of 520+ (thorough 2060+) "
-     "packets replay/substitution/swap at distances 1..513 (thorough ..2049); on streams of 2-3 key epochs every (earlier-epoch, later-epoch) packet pair, incl. equal sequence numbers under strict kex. "
-     "Plus generated plans of <= 4 edits (1.5k quick, 640k thorough). A freshly keyed production receiver must deliver an unmodified prefix of what was sent. Quick: 11 representative suites (+4 with "
-     "zlib), ~23k cases; thorough: all 72 cipher x MAC pairs x {none, zlib}, 6 streams each.",
-     "exhaustive=true refers to the enumerated edits of the streams recorded in that run (cleared when the time budget cuts the enumeration short). Forging a >= 96-bit MAC/tag by a random edit is treated "
-     "as impossible. Which exception the receiver raises is C38's business. A modified packet accepted with identical content is counted, not flagged: the statement allows it.",
+_add("C02", "pkt+refssh", "fault enumeration: every single-byte flip/delete/insert position of recorded encrypted streams, every cross-epoch packet pair x {replay, substitute, swap}, structured replay distances on "
+     "long streams, striped edits of packets up to 70 000 bytes, plus hypothesis-generated multi-fault plans; unmodified-prefix oracle that keeps reading after an error",
+     "Streams are recorded from a production-keyed paramiko sender for every framing class (with and without zlib, mid-stream rekey, strict kex); the receiver is keyed in both directions with "
+     "different suites (all 9 style pairs). Enumerated per stream: every single-byte XOR, deletion and insertion position; on streams of 520+ (thorough 2060+) packets replay/substitution/swap at "
+     "distances 1..513 (thorough ..2049); on streams of 2-3 key epochs every (earlier-epoch, later-epoch) packet pair, incl. equal sequence numbers under strict kex; on packets of 2100-70 000 body "
+     "bytes a flip in every 1024-byte stripe and in each of the last 16 bytes. Plus generated plans of <= 4 edits (1.5k quick, 640k thorough). A freshly keyed production receiver is read on after "
+     "a raising read (until 4 in a row raise): everything it delivers must be an unmodified prefix of what was sent. Quick: 11 representative suites (+ a few with zlib), ~16k cases; thorough: all "
+     "72 cipher x MAC pairs x {none, zlib}, 6 streams each.",
+     "exhaustive=true refers to the enumerated edits of the streams recorded in that run (cleared when the time budget cuts the enumeration short). Inside large packets one generated offset per "
+     "stripe is edited (three in thorough), not every position. Forging a >= 96-bit MAC/tag by a random edit is treated as impossible. Which exception the receiver raises is C38's business. A "
+     "modified packet accepted with identical content is counted, not flagged: the statement allows it.",
      category="fault_enumeration")
-_add("C03", "pkt+refssh", PBT + ": exhaustive enumeration of padding residues per suite/role/API on the bytes the socket accepted + generated lengths, rekey histories, send scripts, long-lived and "
-     "concurrent senders; formula oracle + independent decoder",
-     "For all 72 cipher x MAC pairs x 3 compression settings x both roles x {send_message, _build_packet} every payload length up to 4*bs+8 (every residue mod bs), plus the unencrypted state, is written "
-     "and the bytes the socket accepted are checked: length field, 4 <= padding <= 255, encrypted span a multiple of max(8,bs) (length excluded for ETM/GCM), MAC/tag length per table, and refssh verifies "
-     "the MAC and returns the payload. The sender's inbound direction carries a different suite. Generated: lengths up to 70 000 after 0-2 earlier key exchanges under partial-send/timeout/EAGAIN "
-     "scripts (400 quick, 160k thorough); one Packetizer sending 2500 (thorough 20 000) packets per cipher x MAC style; 2-3 threads on one Packetizer, whose byte stream must cut into exactly one "
-     "well-framed packet per call.",
-     "Lengths near 2^32 are not materialised: padding depends on len mod bs only, so the arithmetic is covered by residue classes and concretely up to 70 000 bytes. Thread interleavings come from the "
+_add("C03", "pkt+refssh", PBT + ": exhaustive enumeration of padding residues per suite/role/API on the bytes the socket accepted + generated lengths, rekey histories, send scripts, sender configurations (hex dump, DEBUG "
+     "logger, keepalive timers, inbound traffic between sends), long-lived and concurrent senders; formula oracle + independent decoder; watchdog for senders that do not return",
+     "For all 72 cipher x MAC pairs x 3 compression settings x both roles x {send_message, _build_packet} every payload length up to 4*bs+8 (every residue mod bs), plus the unencrypted state, is "
+     "written and the bytes the socket accepted are checked: length field, 4 <= padding <= 255, encrypted span a multiple of max(8,bs) (length excluded for ETM/GCM), MAC/tag length per table, and "
+     "refssh verifies the MAC and returns the payload. The sender's inbound direction carries a different suite. Generated: lengths up to 70 000 after 0-2 earlier key exchanges under "
+     "partial-send/timeout/EAGAIN scripts, hex dump off / on / with a DEBUG logger (300 quick, 128k thorough); senders whose keepalive timer runs out while the socket stalls inside a packet: every "
+     "packet written is the message or a keepalive request (120 / 40k); one Packetizer sending 2500 (thorough 20 000) packets per cipher x MAC style; 2-3 threads on one Packetizer, whose byte "
+     "stream must cut into one well-framed packet per call.",
+     "Lengths near 2^32 are not materialised: padding depends on len mod bs only, so the arithmetic is covered by residue classes and concretely up to 70 000 bytes (9000 with the hex dump on). "
+     "Keepalive cases run in real time (interval 0.5-1 ms, socket stalls of 3-4 ms); a sender not back within 10 s (30 s long-lived) is reported as send-hangs. Thread interleavings come from the "
      "interpreter under a generated switch interval; every packet is judged on its own. Trusts the refssh receiver and the harness' MAC-length table.")
-_add("C04", "pkt+refssh", PBT + ": differential of Transport._compute_key against an independent RFC 4253 7.2 KDF + enumerated cipher x MAC x kex-hash sessions with recorded installed key material + wire interop",
-     "Part 1: generated K (1-8192 bit incl. top-bit/byte-boundary shapes), H, session id, letter A-F, length 1..512 dense around digest sizes, 4 hashes: _compute_key must equal refssh.kdf (3k quick, "
-     "480k thorough). Part 2: every cipher x MAC x kex-hash combination (288), both roles, two exchanges per session, the other direction keyed with an independently generated suite: keys/IVs/MAC keys "
-     "recorded by a harness Packetizer subclass equal the RFC letters (C/A/E, D/B/F) with the negotiated sizes, peers agree, directions differ, and the first packets after each activation decode under "
-     "refssh keyed from the letters (1 session per combination quick, 40 thorough).",
-     "No external KDF vectors are available offline; the reference is validated by agreement and interop. Recording uses the public packetizer_class kwarg. Part 2 runs on the packet-layer bench: K and H "
-     "are generated, not produced by a real key exchange (that is C06).")
-_add("C13", "net+peers", PBT + ": enumerated blocking-call x channel pre-state x rekey-in-flight state x loss-kind x order fault schedules with generated parameters; bounded-progress oracle (10 s = 100x poll) confirmed by 3 runs",
-     "Every blocking API (recv, recv_stderr, send/sendall on zero window, recv_exit_status, exec_command, invoke_subsystem, open_session, auth_* incl. event forms, accept(None/5/two waiters) on server and "
-     "client transports, global_request, renegotiate_keys, start_client before the banner / mid-kex), also while a re-exchange started by either side is in flight and after channel histories (shutdown_read/"
-     "write, peer EOF, combine_stderr), x 9 loss kinds (peer close, link EOF, link error, local close, DISCONNECT, garbage, ProxyCommand child exit / SIGKILL / stdout EOF via a real relay child) x {call "
-     "first, loss first, together}, timeout None or 5 s: every call returns or raises within 10 s, is_active() is False, and the same call re-issued returns/raises. Quick runs every applicable call x "
-     "loss pair once call-first (~320 cases) plus drawn other moments; thorough the full product x 3 moments with repetitions.",
-     "Wall-clock bound (100x the 0.1 s polling period); a violation needs 3 consecutive failing runs with the stuck threads' stacks recorded. The blocked state is verified through sys._current_frames "
-     "(two samples) and the request seen by the mute peer. Any return value or exception type is accepted.")
-_add("C14", "net+peers+authkit", PBT + ": generated USERAUTH programs (single requests, keyboard-interactive and two-step publickey exchanges as blocks) from a raw puppet client with independently built "
-     "signatures/forgeries against a generated callback policy incl. undocumented verdict values",
-     "A raw-mode puppet client sends hand-built USERAUTH programs of <= 12 steps: none, password, publickey probe / valid / 15 single-ingredient forgeries (incl. a signature for another real session and "
-     "every alternative algorithm name) over 9 keys + 4 harness-built certificates, keyboard-interactive with 0-3 rounds and other steps interleaved, query-then-signed-request with the application's "
-     "answer changing between them, gssapi-with-mic/keyex on a stub context, other users. Callback verdicts are generated per call, one in 6-8 outside the documented constants. After every step a grant "
-     "(USERAUTH_SUCCESS or any authenticated flag) must imply that the responsible callback returned AUTH_SUCCESSFUL in this step, that an independent (cryptography) verification over this session's "
-     "id/user/service/algorithm/key succeeds, and that get_username() is the approved user. ~390 focused cases are enumerated every run, plus 400 (quick) / 70k (thorough) programs.",
-     "GSS-API itself is a stub (no GSS library installed): only paramiko's use of the MIC verdict and of the callback is exercised. Unknown methods are decided by check_auth_none, as the code documents. "
-     "A signature cut short by a 0x00 byte decodes (Message zero-fills) to the valid one and is treated as valid. A crash or disconnect without a grant satisfies the statement.")
-_add("C15", "net+peers+authkit", PBT + ": generated pre-authentication programs (auth attempts x every connection-layer type 80-100, structured/truncated/random payloads) against callback log + wire + channel table",
+_add("C04", "pkt+refssh+net+peers+refkex", PBT + ": differential of Transport._compute_key against an independent RFC 4253 7.2 KDF + enumerated cipher x MAC x kex-hash sessions with recorded installed key material + wire interop + real key "
+     "exchanges of every kex method against honest reference servers that steer the shape of the shared secret",
+     "Part 1: generated K (1-8192 bit incl. top-bit/byte-boundary shapes), H, session id, letter A-F, length 1..512 dense around digest sizes, 4 hashes: _compute_key must equal refssh.kdf (3k "
+     "quick, 480k thorough). Part 2: every cipher x MAC x kex-hash combination (288), both roles, two exchanges per session, the other direction keyed with an independently generated suite: "
+     "keys/IVs/MAC keys recorded by a harness Packetizer subclass equal the RFC letters (C/A/E, D/B/F) with the negotiated sizes, peers agree, directions differ, and the first packets after each "
+     "activation decode under refssh keyed from the letters (1 session per combination quick, 40 thorough). Part 3: real exchanges of every kex method against a reference server engine steering K "
+     "to have leading zero bytes or to need a sign byte, or paramiko's own engine; optional re-exchange: all key material both transports install equals the reference KDF of the server's K, H and "
+     "the first H (30 sessions quick, 360 thorough).",
+     "No external KDF vectors are available offline; the reference is validated by agreement and interop. Recording uses the public packetizer_class kwarg and a Transport subclass. In part 2 K and "
+     "H are generated, not produced by a key exchange. In part 3 only the server side can steer K (the client commits to its public value first), so a paramiko server engine meets shaped secrets "
+     "at the natural rate only (1 exchange in 256); the reference engines are harness code (vlib/refkex.py).")
+_add("C13", "net+peers", PBT + ": enumerated blocking-call x channel pre-state x rekey-in-flight state x send-side-full state x loss-kind x order fault schedules with generated parameters; bounded-progress oracle (10 s = "
+     "100x poll) confirmed by 3 runs",
+     "Every blocking API (recv, recv_stderr, send/sendall on zero window, recv_exit_status, exec_command, invoke_subsystem, open_session, auth_* incl. event forms, accept(None/5/two waiters) on "
+     "server and client transports, global_request, renegotiate_keys, start_client before the banner / mid-kex), also while a re-exchange started by either side is in flight, after channel "
+     "histories (shutdown_read/write, peer EOF, combine_stderr, closed locally or by the peer), and with the send direction full (peer stopped reading: callers sit in Packetizer.write_all), x 9 "
+     "loss kinds (peer close, link EOF, link error, local close, DISCONNECT, garbage, ProxyCommand child exit / SIGKILL / stdout EOF via a real relay child) x {call first, loss first, together}, "
+     "timeout None or 5 s: every call returns or raises within 10 s, is_active() is False, and the same call re-issued returns/raises. Quick runs every applicable call x loss pair once call-first "
+     "(~470 enumerated cases) plus drawn other moments; thorough the full product x 3 moments with repetitions.",
+     "Wall-clock bound (100x the 0.1 s polling period); a violation needs 3 consecutive failing runs with the stuck threads' stacks recorded. The blocked state is verified through "
+     "sys._current_frames (two samples) and the request seen by the mute peer. Any return value or exception type is accepted. The full send side exists on the in-memory link only (not into a "
+     "ProxyCommand child) and is combined with the losses that end the connection at the socket or locally.")
+_add("C14", "net+peers+authkit", PBT + ": generated USERAUTH programs (single requests, keyboard-interactive and two-step publickey exchanges as blocks) from a raw puppet client with independently built signatures/forgeries and "
+     "raw-byte user names, against a generated application policy (per-call verdicts incl. undocumented values, get_allowed_auths lists fixed or shrinking)",
+     "A raw-mode puppet client sends hand-built USERAUTH programs of <= 12 steps: none, password, publickey probe / valid / 15 single-ingredient forgeries (incl. a signature for another real "
+     "session, every alternative algorithm name and every alternative form of the user name) over 9 keys + 4 harness-built certificates, keyboard-interactive with 0-3 rounds, "
+     "query-then-signed-request with the application's answer changing in between, gssapi-with-mic/keyex on a stub context; user names are text or bytes that are not valid UTF-8. Callback verdicts "
+     "are generated per call, one in 6-8 outside the documented constants; get_allowed_auths() answers full, empty or partial lists, optionally shrinking after each PARTIAL. After every step a "
+     "grant must imply that the responsible callback returned AUTH_SUCCESSFUL in this step, that an independent (cryptography) verification over this session's id/user/service/algorithm/key "
+     "succeeds, and that get_username() and the name the callback saw are the name on the wire (lossless decoding). ~530 focused cases are enumerated every run, plus 400 (quick) / 70k (thorough) "
+     "programs.",
+     "GSS-API itself is a stub (no GSS library installed): only paramiko's use of the MIC verdict and of the callback is exercised. Unknown methods are decided by check_auth_none, as the code "
+     "documents. A signature cut short by a 0x00 byte decodes (Message zero-fills) to the valid one and is treated as valid. A crash or disconnect without a grant satisfies the statement; the "
+     "steps behind a focused request that ended the session are run separately.")
+_add("C15", "net+peers+authkit", PBT + ": generated pre-authentication programs (auth attempts x every connection-layer type 80-100, structured/truncated/random payloads, key re-exchanges with messages written inside the exchange "
+     "window) x application-object flavours, against callback log + wire + channel table",
      "A raw puppet client runs programs of 1-14 items mixing never-succeeding auth attempts (none, password, publickey probe / forged signature, keyboard-interactive; verdicts FAILED/PARTIAL) with "
-     "messages of every type 80..100 (well-formed payloads for every request kind, channel ids 0..3 and random, truncations, random bytes). Before USERAUTH_SUCCESS no check_channel_* / port-forward / "
-     "global-request callback may fire, no channel exists or was allocated, accept(0) is None, the wire shows only refusals or the session ends; after a real authentication the same messages do reach "
-     "the callbacks (control against a vacuous pass). Every type after a failed and after a partial authentication is enumerated; 320 (quick) / 48k (thorough) programs are drawn.",
-     "A transport that dies on a pre-auth message still satisfies the statement (nothing delivered); its exception class is C38's business. Ordering uses the UNIMPLEMENTED sentinel of vlib.authkit, no sleeps.")
-_add("C16", "net+peers+authkit", "model-based " + PBT + ": generated authentication message sequences (one by one and pipelined, with key re-exchanges and repeated service requests in the alphabet) compared with a model of the statement",
-     "A raw puppet client sends sequences of <= 40 messages: USERAUTH_REQUESTs over 3 usernames x 3 services x 8 methods (incl. GSS on a stub), INFO_RESPONSEs, keyboard-interactive exchanges of 1-3 "
-     "rounds with other requests interleaved, repeated SERVICE_REQUESTs and complete client- or server-initiated key re-exchanges at any point; four program styles; verdicts generated per method / "
-     "message. Model = pinned user, failure count (a FAILED result counts whichever message delivered it), authenticated, ended - all kept across service requests and re-exchanges. Callbacks only ever "
-     "see the pinned username; a username or service change ends the connection; the tenth failure ends it; nothing is evaluated after the end (pipelined mode supplies later requests). 500 sequences "
-     "quick, 48k thorough.",
-     "The extra clause disconnect-before-ten-failures has its own signature. A violating history with re-exchanges is re-run without them to attribute the root cause. What a SERVICE_REQUEST for a foreign "
-     "name does is not specified; it is only sent last and nobody may be authenticated by it. An INFO_RESPONSE directly behind a gssapi-with-mic request is not sent.")
-_add("C17", "net+peers+authkit+refssh", PBT + ": lifecycle-stage x method enumeration + generated known_hosts/policy/credential-source configurations and SSHClient histories; observed only via the raw client->server "
-     "stream decrypted by the independent reference",
-     "Four sub-domains: auth_* invoked at 9 stages of start_client (held link; stage x method x class enumerated); Transport.connect(hostkey = same / sibling / other type / none); SSHClient.connect with "
-     "0-4 generated known_hosts lines (plain/hashed names, [host]:port, other hosts, other keys, comment/tab/@revoked/@cert-authority forms) x store x 6 policies (raising ones raise generated exception "
-     "classes) x 11 ways of supplying credentials incl. auth_strategy; histories of 2-6 connects and HostKeys lookups on one SSHClient with two stores and AutoAdd memory. No USERAUTH_REQUEST / INFO_RESPONSE / "
-     "SERVICE_REQUEST before the client's NEWKEYS, no credential bytes anywhere in the raw stream, nothing of type 50/61 to a mismatching, unknown-and-rejected or not-yet-accepted server, and connect() "
-     "raises. ~460 cases quick, ~54k thorough.",
-     "The plaintext SERVICE_REQUEST clause goes slightly beyond the literal statement and has its own signature. A marker line never makes a host known; which ordinary lines of a file with marker lines count "
-     "is treated as implementation-defined (the tree raises InvalidHostKey at such a line). Agent and ~/.ssh key discovery are off. Accepted configurations must show a type 50 under encryption (vacuity guard).")
-_add("C18", "net+peers", "stateful " + PBT + " (RuleBasedStateMachine): 1-3 tested client transports in one process, each vs its own raw puppet server; per-transport model of enabled features",
-     "Rules: server global requests (known and random names), server channel opens of every kind, server channel requests of every type with drawn payloads (incl. subsystem names the client registered "
-     "handlers for), client request_x11 / forward_agent / request_port_forward / cancel (puppet answers as drawn), server-mode configuration of the client (set_subsystem_handler, add_server_key), "
-     "open/close channels, add/close transports mid-history. Oracle on the puppet's ordered log and the client's accept queue / handlers: global requests never succeed, opens are refused unless that "
-     "transport enabled the kind, exec/shell/subsystem/pty-req are never approved and no registered subsystem handler is started; the session stays usable. 100 histories of <= 30 steps quick, 16k thorough.",
-     "One operation at a time closed by a sentinel (no sleeps); accepting an enabled kind is counted, not demanded (the statement is about refusal). The private channel table is an optional extra "
-     "observation. Failures depending on state left by earlier histories of the process are reported with that history attached.")
-_add("C19", "net+peers+sched+chanbench", PBT + ": history invariant on the puppet's wire log at every prefix + the same invariants on a real Channel under generated lock/line-level schedules (deterministic scheduler)",
-     "Sender: a raw puppet grants (window, max_packet) from {0,1,4095,4096,4097,32768,2^20,2^32-1}^2 and WINDOW_ADJUSTs at quiescence or racing 1-4 sender threads (0-200 KiB; blocking/timeout/"
-     "non-blocking): at every log prefix sum(data + ext data) <= initial window + adjusts sent before, each message <= peer max packet. Receiver: 1-3 channels, windows across the clamp boundaries, "
-     "data and extended data of kept and discarded type codes, recv/recv_stderr/set_combine_stderr at generated moments: grants <= bytes consumed, booked per channel number named (puppet numbers equal / "
-     "permuted / disjoint from the tested side's). E4: the same clauses on a real Channel over a fake transport with generated preemption lists, incl. a sub-family aimed at the gap in _send between "
-     "leaving the lock and transmitting. Quick ~240 real-transport + 1.4k scheduled cases; thorough ~22k + 208k.",
-     "The real-transport receiver part uses one application thread (one call at a time); E4 has 1-2 reader tasks. Switching granularity is lock operations, the send point and optionally source lines of "
-     "channel.py, not bytecode. The sender invariant is lenient about adjusts in flight, never the other way round. Transport-wide default sizes are taken from the documented range.")
+     "messages of every type 80..100 (well-formed payloads for every request kind, channel ids 0..3 and random, truncations, random bytes) and complete re-exchanges started by either side with 0-3 "
+     "such messages written inside the exchange window. The ServerInterface object is drawn from 7 flavours (plain, falsy via __len__/__bool__, empty dict subclass, __eq__ always True/False, "
+     "truthy __len__). Before USERAUTH_SUCCESS no check_channel_* / port-forward / global-request callback may fire, no channel exists or was allocated, accept(0) is None, the wire shows only "
+     "refusals or the session ends; after a real authentication the same messages do reach the callbacks (control against a vacuous pass). Enumerated every run: every type after a failed and a "
+     "partial authentication and inside a server- and a client-started re-key window, types 80/90 per flavour (90 cases); plus 320 (quick) / 48k (thorough) drawn programs.",
+     "A transport that dies on a pre-auth message (or on messages a client writes behind its own KEXINIT, a protocol error) still satisfies the statement (nothing delivered); its exception class "
+     "is C38's business. The pre-authentication phase is defined by the wire (no USERAUTH_SUCCESS sent), internal flags are not consulted. Ordering uses the UNIMPLEMENTED sentinel of vlib.authkit, "
+     "no sleeps.")
+_add("C16", "net+peers+authkit", "model-based " + PBT + ": generated authentication message sequences (one by one and pipelined, with key re-exchanges and repeated service requests in the alphabet) under a generated advertised-method policy, "
+     "compared with a model of the statement",
+     "A raw puppet client sends sequences of <= 40 messages: USERAUTH_REQUESTs over 3 usernames x 3 services x 9 methods (incl. GSS on a stub and method names the server does not implement), "
+     "INFO_RESPONSEs, keyboard-interactive exchanges of 1-3 rounds with other requests interleaved, repeated SERVICE_REQUESTs and complete client- or server-initiated key re-exchanges at any "
+     "point; four program styles; verdicts generated per method / message. Independently, get_allowed_auths advertises the full list, the stock 'password', one method, nothing, a subset, or a list "
+     "changing per call. Model = pinned user, failure count (a FAILED result counts whichever message delivered it, advertised method or not), authenticated, ended - all kept across service "
+     "requests and re-exchanges. Callbacks only ever see the pinned username; a username or service change ends the connection; the tenth failure ends it; nothing is evaluated after the end "
+     "(pipelined mode supplies later requests). 500 sequences quick, 48k thorough.",
+     "The extra clause disconnect-before-ten-failures has its own signature. A violating history with re-exchanges, or with less than the full advertised list, is re-run without that ingredient to "
+     "attribute the root cause. What a SERVICE_REQUEST for a foreign name does is not specified; it is only sent last and nobody may be authenticated by it. An INFO_RESPONSE directly behind a "
+     "gssapi-with-mic request is not sent.")
+_add("C17", "net+peers+authkit+refssh", PBT + ": lifecycle-stage x method enumeration + generated known_hosts/policy/credential-source configurations (overlapping lines, split files, host-name spellings, pin-centred generators) and "
+     "SSHClient histories; observed only via the raw client->server stream decrypted by the independent reference",
+     "Sub-domains: auth_* invoked at 9 stages of start_client (held link; stage x method x class enumerated); Transport.connect(hostkey = same / sibling / other type / none); SSHClient.connect "
+     "with 0-4 generated known_hosts lines (plain/hashed names, [host]:port, other hosts, other keys, comment/tab/@revoked/@cert-authority forms, later lines overlapping earlier ones, optionally "
+     "split over two files, host name in 4 spellings) x store x 6 policies (raising ones raise generated exception classes) x 11 ways of supplying credentials incl. auth_strategy; histories of 2-6 "
+     "connects and HostKeys lookups on one SSHClient with two stores and AutoAdd memory; pin-centred variants of both (>= 1 line, only keys no server presents, mostly accepting policies). No "
+     "USERAUTH_REQUEST / INFO_RESPONSE / SERVICE_REQUEST before the client's NEWKEYS, no credential bytes anywhere in the raw stream, nothing of type 50/61 to a mismatching, unknown-and-rejected "
+     "or not-yet-accepted server, and connect() raises. ~650 cases quick, ~83k thorough.",
+     "The plaintext SERVICE_REQUEST clause goes slightly beyond the literal statement and has its own signature. A marker line never makes a host known; which ordinary lines of a file with marker "
+     "lines count is treated as implementation-defined (the tree raises InvalidHostKey at such a line). Pins and connect() use the same spelling of the host name; whether a differently spelled pin "
+     "counts is not asserted. Agent and ~/.ssh key discovery are off. Accepted configurations must show a type 50 under encryption (vacuity guard).")
+_add("C18", "net+peers", "stateful " + PBT + " (RuleBasedStateMachine): 1-3 tested client transports in one process, each vs its own raw puppet server, server actions also sent while a client request is in flight; per-transport model of "
+     "enabled features",
+     "Rules: server global requests (known and random names), server channel opens of every kind, server channel requests of every type with drawn payloads (incl. subsystem names the client "
+     "registered handlers for), client request_x11 / forward_agent / request_port_forward / cancel (puppet answers as drawn, and may send 0-2 opens / global requests / channel requests between "
+     "receiving the client's request and answering it), server-mode configuration of the client (set_subsystem_handler, add_server_key), open/close channels, add/close transports mid-history. "
+     "Oracle on the puppet's ordered log and the client's accept queue / handlers: global requests never succeed, opens are refused unless that transport enabled the kind (also inside the window "
+     "of a request that is then refused), exec/shell/subsystem/pty-req are never approved and no registered subsystem handler is started; the session stays usable. 100 histories of <= 30 steps "
+     "quick, 16k thorough.",
+     "One operation at a time closed by a sentinel (no sleeps); accepting an enabled kind - or a kind whose enabling request is in flight and then granted - is counted, not demanded (the statement "
+     "is about refusal). The private channel table is an optional extra observation. Failures depending on state left by earlier histories of the process are reported with that history attached.")
+_add("C19", "net+peers+sched+chanbench", PBT + ": history invariant on the puppet's wire log at every prefix (also with a key re-exchange in progress while senders run) + the same invariants on a real Channel under generated "
+     "lock/line-level schedules (deterministic scheduler), incl. preemptions aimed at a window adjust in flight",
+     "Sender: a raw puppet grants (window, max_packet) from {0,1,4095,4096,4097,32768,2^20,2^32-1}^2 and WINDOW_ADJUSTs at quiescence or racing 1-4 sender threads (0-200 KiB; "
+     "blocking/timeout/non-blocking), optionally during a re-exchange that runs or is held for 0.1-0.2 s (longer than the channel timeout): at every log prefix sum(data + ext data) <= initial "
+     "window + adjusts sent before, each message <= peer max packet. Receiver: 1-3 channels, windows across the clamp boundaries, (extended) data of kept and discarded type codes, "
+     "recv/recv_stderr/set_combine_stderr at generated moments: grants <= bytes consumed, booked per channel number named (puppet numbers equal / permuted / disjoint from the tested side's). E4: "
+     "the same clauses on a real Channel over a fake transport with generated preemption lists, incl. preemptions aimed at the gap in _send between leaving the lock and transmitting, and at a "
+     "WINDOW_ADJUST that has left the channel but is not yet on the wire. Quick ~260 real-transport + ~1.5k scheduled cases; thorough ~26k + 248k.",
+     "The real-transport receiver part uses one application thread (one call at a time); E4 has 1-3 reader tasks. Switching granularity is lock operations, the send point and optionally source "
+     "lines of channel.py, not bytecode. The sender invariant is lenient about adjusts in flight, never the other way round. A re-exchange that does not complete is inconclusive here. "
+     "Transport-wide default sizes are taken from the documented range.")
 _add("C20", "net+peers+sched+chanbench", PBT + ": real transport pairs with progress monitoring + window-obeying puppet leak oracle + exact deadlock verdicts under the deterministic scheduler (gated fake transports, peer crediting policies)",
      "Pair: receiver window x max packet over the threshold classes, 0-5 windows of stream-tagged data, stdout/stderr patterns, read sizes 1..>W, combine_stderr at start/mid-way, half-closed ends, 1-2 "
      "sender threads, renegotiate_keys during the transfer: sendall returns and what was read equals what was sent. Pup: a puppet obeying the advertised window sends data and extended data of type codes "
@@ -249,49 +283,60 @@ _add("C20", "net+peers+sched+chanbench", PBT + ": real transport pairs with prog
      "links, e4lwm: a peer crediting by low-water mark against histories of up to 90 sends): deadlock = no runnable task while data remains, exact. Quick ~130 real + 900 scheduled cases; thorough ~11k + 104k.",
      "A real-transport stall needs no byte moved for the stall period (>= 50x every polling period involved) in three independent runs. The W//10 bound is channel.py's own crediting threshold. E4 "
      "verdicts hold within the scheduler model (lock-level, optional line-level switch points, virtual time).")
-_add("C21", "net+peers+sched+chanbench", PBT + ": stream-tagged payloads over up to 8 concurrent channels with rekeys/compression/fragmentation/per-direction limits; exact per-stream comparison; data written from server "
-     "handlers across forced re-exchanges; E4 family for mid-transfer combine",
-     "1-8 concurrent channels (ids offset between the sides), per-stream payloads 0-512 KiB, send and read size patterns, cipher/MAC/compression and link fragmentation drawn, windows and max packet sizes "
-     "drawn independently per direction, 0-2 renegotiate_keys during the transfer. Per channel recv == stdout sent and recv_stderr == stderr sent; combine from the start = sender call order; combine "
-     "switched on mid-transfer: buffered stderr moves to stdout, nothing lost / duplicated / reordered (split by tag); exit status 0..2^32-1 reported exactly. Handler family: a server callback writes "
-     "2-8 chunks, exit status and shutdown/close from the transport thread, with the request crossing a forced server re-exchange or followed by a client KEXINIT. E4 drives set_combine_stderr against "
-     "arriving data under line-level schedules. Quick ~200 real + 600 scheduled cases; thorough ~21k + 96k.",
-     "Channels are closed only after all re-exchanges have finished (C11's findings are excluded by construction). Exit status is checked on server->client channels. Bytes that never arrive are "
-     "reported only after 20 s without movement in three independent runs.")
-_add("C22", "sched+chanbench+peers", PBT + ": generated 1-3 application tasks + transport task on a real Channel over a fake transport under owned schedules (generated preemption lists; thorough adds exhaustive "
-     "bounded-preemption enumeration of small programs); wire-log invariant; real-transport family for CLOSE crossing a re-exchange",
-     "Tasks of 1-3 ops from send/sendall/send_stderr/shutdown*/close/recv/reply-wanting and reply-less requests/send_exit_status/file-object writes + a transport task delivering peer WINDOW_ADJUST/DATA/EOF/"
-     "CLOSE/SUCCESS/FAILURE/REQUEST through the real handlers; switch points at lock operations, the send point and optionally every source line of channel.py's send/close paths. Invariant: <= 1 EOF, <= 1 "
-     "CLOSE, peer CLOSE answered exactly once, no DATA after own EOF/CLOSE; after both CLOSEs the channel is unmapped and later operations send nothing and raise; handlers never raise. Extra families: "
-     "late tasks after release, zero-window programs, and (real transport vs puppet) peer EOF/CLOSE crossing the tested side's KEXINIT. Quick ~5.4k schedules; thorough ~580k drawn plus all <= 3-preemption "
-     "schedules of every 2-task program (<= 2 ops, 9-op alphabet) and selected 3-task / request programs.",
-     "Open known finding (recorded, not repaired): Channel._send reserves window under the lock, releases it, then transmits, so a concurrent close/shutdown_write/peer-CLOSE answer can put EOF/CLOSE on the wire "
-     "first. The bucket separates 'window reserved before EOF/CLOSE was decided' (the finding) from 'after' (where mutants land). exhaustive=true (thorough) refers to the enumerated small programs only.")
-_add("C23", "net+peers+sched", "stateful " + PBT + " (two RuleBasedStateMachines: real client/server pair; one transport vs raw puppet) with a model of live ids, counters preset near 2^24, gated concurrent local+peer open; "
-     "plus an un-started Transport under the deterministic scheduler with preemptions aimed inside the id allocation",
-     "Pair machine: local open, peer open, close either/both, drop references (weak ChannelMap), counter jump onto/near live ids or 2^24-1, gated race (peer open held inside check_channel_request while a "
-     "local open runs), free race. Puppet machine: up to 3 unanswered opens answered late in any order, stray confirmations/failures, jumps onto ids of unanswered opens, data-routing probes; oracle from the "
-     "harness' own Channel objects and wire ids. Scheduler family: transport-thread task dispatching peer opens of every accepted kind / answers / CLOSE || 1-2 application tasks, lock- and line-level "
-     "switch points. Every id handed out is in 24 bits, not live, agreed by both ends, and nothing registered is overwritten. Quick 110 histories of <= 40 steps + 600 schedules; thorough ~19k + 128k, "
-     "plus all <= 1-2 preemption schedules of 10 small programs in every tier.",
-     "Counter jumps stand in for the 2^24 opens it would take to get there. After dropping a reference ids are freed at GC time (the harness waits for both ends to be closed and unlinked). The scheduler "
-     "family judges ids on the fake wire; switching is at lock operations and source lines of the allocation/registration code.")
-_add("C24", "sched+chanbench", PBT + ": generated buffer histories and transport/application tasks on a real Channel + real os.pipe + select under the deterministic scheduler with line-level switching in pipe.py/buffered_pipe.py (generated preemption lists; thorough adds bounded-preemption enumeration)",
-     "A start state (buffered stdout/stderr bytes, peer EOF/CLOSE, combine_stderr) is reached through the real handlers, optionally by a history of 0-5 feeds, reads and combine calls before the first "
-     "fileno() (buffers filled and drained); then one transport task (1-4 peer DATA / EXTENDED_DATA of 0-3 bytes incl. zero-length, EOF, CLOSE) runs against 1-2 application tasks (recv, recv_stderr, "
-     "set_combine_stderr) with switch points at every lock operation and every source line of pipe.py / buffered_pipe.py, preemptions also aimed inside the pipe set/clear code. At every quiescent point "
-     "select-readability of the descriptor must equal (buffered data or EOF or closed). 3.5k schedules quick, 480k thorough plus all schedules with <= 3 (lock-level) / <= 2 (line-level) preemptions "
-     "of 100 small programs.",
-     "Source-line granularity (settrace) plus synchronisation operations, not bytecode. All peer messages run on one task (there is one transport thread). User Channel.close() is not generated (destroys "
-     "the descriptor, after which the statement says nothing). exhaustive=true (thorough) refers to the enumerated small programs only.")
-_add("C25", "sched+chanbench", PBT + ": generated channel histories + concurrent tasks on a real Channel over a fake transport under the deterministic scheduler with virtual-time timeouts; timed and granting-peer families",
-     "sendall/sendall_stderr (0-300 KiB; bytes, bytearray, memoryview, ASCII and multi-byte str; blocking, timed, non-blocking) after a history of <= 3 events and concurrent with a transport task and 1-2 "
-     "application tasks doing shutdown_write/_read, shutdown, close, peer EOF/CLOSE, window adjusts, transport loss: either returns None with exactly the argument's bytes handed to the transport in order, "
-     "or raises socket.error/SSHException after a prefix; terminates (spin guard: 120 consecutive zero-byte sends with everyone else parked; deadlock classification; a parked call is legitimate only while "
-     "the peer-side window is used up). Timed family: window waits of one send() never restart once they add up to the timeout. Flow family: a serving peer re-grants every byte, sendalls of 1-8 windows. "
-     "4k cases quick, ~620k thorough.",
-     "Termination is decided exactly within the scheduler model (lock-level, optionally line-level switch points in channel.py; virtual clock); the real-transport stress complement is not implemented. "
-     "All peer input runs on one task, as on paramiko's one transport thread.")
+_add("C21", "net+peers+sched+chanbench", PBT + ": stream-tagged payloads over up to 8 concurrent channels with rekeys/compression/fragmentation/per-direction limits and single messages above 256 KiB; exact per-stream comparison; data "
+     "written from server handlers across forced re-exchanges; E4 family for mid-transfer combine",
+     "1-8 concurrent channels (ids offset between the sides), per-stream payloads 0-512 KiB, send and read size patterns, cipher/MAC/compression and link fragmentation drawn, windows and max "
+     "packet sizes drawn independently per direction, 0-2 renegotiate_keys during the transfer; a quarter of the channels advertise a max packet of 300000..1 MiB and start with one write of "
+     "256-512 KiB. Per channel recv == stdout sent and recv_stderr == stderr sent; combine from the start = sender call order; combine switched on mid-transfer: buffered stderr moves to stdout, "
+     "nothing lost / duplicated / reordered (split by tag); exit status 0..2^32-1 reported exactly. Handler family: a server callback writes 2-8 chunks, exit status and shutdown/close from the "
+     "transport thread, with the request crossing a forced server re-exchange or followed by a client KEXINIT. E4 drives set_combine_stderr against arriving data under line-level schedules. Quick "
+     "~200 real + 600 scheduled cases; thorough ~21k + 96k.",
+     "Channels are closed only after all re-exchanges have finished, and a round trip follows every rekey (C11's findings are excluded by construction); a server-side send racing the server's own "
+     "delayed-compression switch right after USERAUTH_SUCCESS is excluded too. Exit status is checked on server->client channels. Bytes that never arrive are reported only after 20 s without "
+     "movement in three independent runs.")
+_add("C22", "sched+chanbench+peers", PBT + ": generated 1-3 application tasks + transport task on a real Channel over a fake transport under owned schedules (generated preemption lists; thorough adds exhaustive bounded-preemption "
+     "enumeration of small programs); wire-log invariant incl. window adjusts; real-transport family for CLOSE crossing a re-exchange",
+     "Tasks of 1-3 ops from send/sendall/send_stderr/shutdown*/close/recv/recv_stderr/reply-wanting and reply-less requests/send_exit_status/file-object writes, incl. multi-packet sendall and "
+     "ChannelFile.write, + a transport task delivering an inbound backlog and peer WINDOW_ADJUST/DATA/EOF/CLOSE/SUCCESS/FAILURE/REQUEST through the real handlers (receive window 2 MiB or 32768); "
+     "switch points at lock operations, the send point and optionally every source line of channel.py's send/close paths. Invariant: <= 1 EOF, <= 1 CLOSE, peer CLOSE answered exactly once, no DATA "
+     "after own EOF/CLOSE; after both CLOSEs the channel is unmapped and later operations send nothing (not even WINDOW_ADJUST) and raise; handlers never raise. Extra families: late tasks after "
+     "release, zero-window programs, and (real transport vs puppet) peer EOF/CLOSE crossing the tested side's KEXINIT. Quick ~6.3k schedules; thorough ~580k drawn plus all <= 3-preemption "
+     "schedules of every 2-task program (<= 2 ops, 9-op alphabet) and selected 3-task / request / multi-message programs.",
+     "Open known finding (recorded, not repaired): Channel._send reserves window under the lock, releases it, then transmits, so a concurrent close/shutdown_write/peer-CLOSE answer can put "
+     "EOF/CLOSE on the wire first. The bucket separates 'window reserved before EOF/CLOSE was decided' (the finding, one message in flight per writer) from 'after' and from a reservation reused "
+     "for a later message (where mutants land). exhaustive=true (thorough) refers to the enumerated small programs only.")
+_add("C23", "net+peers+sched", "stateful " + PBT + " (two RuleBasedStateMachines: real client/server pair; one transport vs raw puppet) with a model of live ids, counters preset near 2^24, gated concurrent local+peer open, refused opens and "
+     "peer ids colliding with local ones; plus an un-started Transport under the deterministic scheduler with preemptions aimed inside the id allocation",
+     "Pair machine: local open, peer open, close either/both, drop references (weak ChannelMap), counter jump onto/near live ids or 2^24-1, refused opens, gated race (peer open held inside "
+     "check_channel_request while a local open runs), free race. Puppet machine: up to 3 unanswered opens answered late in any order, stray confirmations/failures, jumps onto ids of unanswered "
+     "opens, refused peer opens, data-routing probes; peer sender ids fresh, equal to a local id in use or the local counter, or above 2^24; oracle from the harness' own Channel objects and wire "
+     "ids. Scheduler family: transport-thread task dispatching peer opens of every kind / answers / CLOSE || 1-2 application tasks, lock- and line-level switch points. Every id handed out is in 24 "
+     "bits, not live, agreed by both ends, and nothing registered is overwritten or becomes unreachable. Quick 110 histories of <= 40 steps + 600 schedules; thorough ~19k + 128k, plus all <= 1-2 "
+     "preemption schedules of 10 small programs in every tier.",
+     "Counter jumps stand in for the 2^24 opens it would take to get there. After dropping a reference ids are freed at GC time (the harness waits for both ends to be closed and unlinked). The "
+     "scheduler family judges ids on the fake wire; switching is at lock operations and source lines of the allocation/registration code. A race-rule violation that does not reproduce when "
+     "hypothesis re-executes the history is kept unshrunk.")
+_add("C24", "sched+chanbench", PBT + ": generated buffer histories and transport/application tasks (non-blocking, blocking and timed reads; first fileno() sequential or inside a task) on a real Channel + real os.pipe + select "
+     "under the deterministic scheduler with line-level switching in pipe.py/buffered_pipe.py (generated preemption lists; bounded-preemption enumeration of small programs)",
+     "A start state (buffered stdout/stderr bytes, peer EOF/CLOSE, combine_stderr) is reached through the real handlers, optionally by 0-5 feeds, reads and combine calls (buffers filled and "
+     "drained); then one transport task (1-4 peer DATA / EXTENDED_DATA of 0-3 bytes incl. zero-length, EOF, CLOSE) runs against 1-3 application tasks (recv / recv_stderr non-blocking, blocking or "
+     "timed in virtual time, set_combine_stderr either way, fileno()). The first fileno() happens before the tasks start or inside one (also while a reader is parked); repeated calls return the "
+     "same descriptor. Switch points: every lock operation and source line of pipe.py / buffered_pipe.py, preemptions also aimed inside the pipe set/clear code. At every quiescent point "
+     "select-readability of the descriptor must equal (buffered data or EOF or closed). ~5k schedules quick (60 combine-toggle / three-task programs in every task order), 480k thorough plus all "
+     "schedules with <= 3 (lock-level) / <= 2 (line-level) preemptions of 100 small programs, <= 2 / <= 1 of those 60.",
+     "Source-line granularity (settrace) plus synchronisation operations, not bytecode. All peer messages run on one task (there is one transport thread). User Channel.close() is not generated "
+     "(destroys the descriptor, after which the statement says nothing). A run ending with blocking readers parked on an open, empty stream is not a deadlock. exhaustive=true (thorough) refers to "
+     "the enumerated small programs only.")
+_add("C25", "sched+chanbench", PBT + ": generated channel histories + concurrent tasks on a real Channel over a fake transport under the deterministic scheduler with virtual-time timeouts; timed, granting-peer and "
+     "several-senders-parked families; peer max packet over the whole uint32 range",
+     "sendall/sendall_stderr (0-300 KiB; bytes, bytearray, memoryview, ASCII and multi-byte str; blocking, timed, non-blocking) after a history of <= 3 events and concurrent with a transport task "
+     "and 1-2 application tasks doing shutdown_write/_read, shutdown, close, peer EOF/CLOSE, window adjusts, transport loss; peer max packet 4096 / 32768 or 0, 1, 32, 63-65, 4095, 2^32-1. Each "
+     "call returns None with exactly the argument's bytes handed to the transport in order, or raises socket.error/SSHException after a prefix and with a cause (closed, EOF sent, transport lost, "
+     "timed out); terminates (spin guard: 120 consecutive non-positive send() results with everyone else parked; deadlock classification; a parked call is legitimate only while the peer-side "
+     "window is used up). Timed family: window waits of one send() never restart once they add up to the timeout. Flow family: a serving peer re-grants every byte, sendalls of 1-8 windows. Herd "
+     "family: 2-3 senders parked on an exhausted window, then one grant. 4k cases quick, ~690k thorough.",
+     "Termination is decided exactly within the scheduler model (lock-level, optionally line-level switch points in channel.py; virtual clock); the real-transport stress complement is not "
+     "implemented. All peer input runs on one task, as on paramiko's one transport thread. The cause of a raise is judged after the call; the conditions are one-way, so this can only excuse more.")
 _add("C26", "sched", PBT + ": generated 1-3 task programs on the real BufferedPipe under the deterministic scheduler with a virtual clock; sequential model in linearisation order; exhaustive small-program enumeration in thorough",
      "Programs of <= 3 tasks x <= 4 ops over feed / read(n, timeout None,0,0.5,2) / empty / close / read_ready / len / sleep, with task roles incl. 'life after close' (feeds, reads of every timeout kind, "
      "second close on the closed pipe). The linearisation is the order of each op's last acquisition of the pipe lock; a sequential model run in that order demands: reads + empties + rest == feeds in order "
@@ -322,13 +367,17 @@ _add("C31", "sftpenv", "differential " + PBT + ": generated attribute operations
      "chown, and no decoy or link changed. 1.5k cases quick, 640k thorough.",
      "Not running as root: chown only to the current uid/gid. Nothing is asserted about times after non-utime operations; times are whole seconds. What read() returns inside a handle session is not "
      "asserted, and a failure of the plain I/O itself is inconclusive. Served files are unbuffered on the server side. Multi-attribute SETSTAT packets are not generated (public client API only).")
-_add("C32", "sftpenv", PBT + ": generated check-file queries and handle histories vs hashlib per block over a model of the served bytes, under short-read plans; deterministic server-read livelock guard for promptness",
-     "Files 0-400 KiB of aperiodic content; 1-4 queries on a read-only handle, or histories of 4-10 check/read/seek/write operations on two handles (r, r+, w+) with offsets relative to each handle's past "
-     "requests; offsets/lengths/block sizes around 64 KiB*k, EOF and 2^40; block >= 256 or 0 (= the whole segment); md5/sha1 and lists with an unsupported name; served reads optionally short (cap of k "
-     "bytes, or every m-th read). Reply == concatenation of hash(file[o+i*b : min(o+(i+1)*b, end)]) over the bytes the file holds at that moment; end = EOF when length is 0 or runs past it. An endless "
-     "read loop is aborted inside the served handle (1000 reads at/after EOF, or a per-range cap) and reported. 1.5k cases quick, 480k thorough.",
-     "Block sizes 1..255 are outside the statement and not generated; a zero block size on a segment shorter than 256 bytes accepts any reply (counted). For an empty range an empty digest or an error "
-     "reply are both accepted, but there must be a reply. Which supported algorithm of a list is used is free. What read() returns is not asserted. Raw-packet variant not implemented.")
+_add("C32", "sftpenv", PBT + ": generated check-file queries and handle histories vs hashlib per block over a model of the served bytes, under short-read and read-error plans of the served handle; deterministic "
+     "server-read livelock guard for promptness",
+     "Files 0-400 KiB of aperiodic content; 1-4 queries on a read-only handle, or histories of 4-10 check/read/seek/write operations on two handles (r, r+, w+) with offsets relative to each "
+     "handle's past requests; offsets/lengths/block sizes around 64 KiB*k, EOF and 2^40; block >= 256 or 0 (= the whole segment); md5/sha1 and lists of 2-4 names with unsupported ones anywhere "
+     "(the first supported name is the requested hash); served reads optionally short (cap of k bytes, every m-th read) or failing at / from a generated position (error code or OSError). Reply == "
+     "concatenation of hash(file[o+i*b : min(o+(i+1)*b, end)]) over the bytes the file holds at that moment; end = EOF when length is 0 or runs past it; an unreadable position inside the range "
+     "demands an error reply, never digests of the readable part. An endless read loop is aborted inside the served handle (1000 reads at/after EOF, or a per-range cap). 1.5k cases quick, 480k "
+     "thorough.",
+     "Block sizes 1..255 are outside the statement and not generated; a zero block size on a segment shorter than 256 bytes accepts any reply (counted). For an empty range an empty digest or an "
+     "error reply are both accepted, but there must be a reply. A short read always returns >= 1 byte. With an unreadable position outside the range the ordinary oracle applies. What read() "
+     "returns is not asserted. Raw-packet variant not implemented.")
 _add("C40", "core", "model-based " + PBT + ": generated ssh_config texts (also fed incrementally to one object) looked up and compared key by key with an independent first-obtained-value / two-walk Match model",
      "<= 12 Host/Match blocks over a small name/pattern pool (wildcards, negation, quoting; Match all / final / host / originalhost / user / localuser, whose outcome may depend on HostName/User set by "
      "earlier or later blocks), repeated keys, IdentityFile lists, ProxyCommand none, %-tokens where both ssh_config(5) and paramiko's docs allow them, syntactic noise (=, quotes, case, comments, CRLF); "
@@ -352,15 +401,16 @@ _add("C35", "keys+keymat+refssh", PBT + ": generated key material x provenance x
      "independent strict verifier (RFC 4253 blob parse + cryptography). 4k cases quick, 800k thorough; violations are bucketed by root cause and collected.",
      "RSA -cert-v01 names are treated as valid aliases (documented in RSAKey.HASHES). Non-minimally encoded ECDSA integers are verified by value. Blobs that make an ECDSA verifier inflate a zero-padded "
      "mpint of more than 64 KiB (10-30 s, still False) are excluded by construction and counted. Trusts vlib.keys.RefPub and `cryptography`.")
-_add("C36", "keys+keymat+refssh", PBT + ": generated key material x provenance x serialisation / passphrase text / umask / pre-existing-file cases and write histories on one path, with an independent public-blob encoder, "
-     "verifier and legacy-PEM writer",
-     "Bundled files plus constructed keys (ECDSA scalars with short public coordinates, RSA selected by DER length mod block size, odd-bit-length RSA). Class(data=k.asbytes()) / msg= / from_type_string == k "
-     "with equal hash, bytes, name, bits, fingerprints per the independent encoder; private, public-only and cert-bearing objects of one key are equal, other and NEAR keys (shared part of the public "
-     "material, or colliding hash() of every number) unequal. Written private keys (file and file-object entry points; passphrases incl. unicode that is unstable under NFC/NFD/NFKC/NFKD) load back equal "
-     "and signing-capable (verified independently); none / wrong / normalisation-equivalent passphrases never yield a key; 2-3 files written over each other on one path load back as just written; new "
-     "files have no group/other bits under umask 0/022/077 and replace longer ones. ~450 cases quick, ~40k thorough.",
-     "Ed25519 has no writer in paramiko: only bundled files are used for its passphrase clauses. umask is changed only around the write call (single-threaded) and restored. write_private_key* with an empty "
-     "passphrase may refuse; nothing is asserted about that call. bcrypt.kdf is memoised by the harness.")
+_add("C36", "keys+keymat+refssh", PBT + ": generated key material x provenance x serialisation / passphrase text / umask / pre-existing-file cases, write histories on one path and one key under several harness-built certificates, "
+     "with an independent public-blob encoder, verifier, legacy-PEM writer and certificate encoder",
+     "Bundled files plus constructed keys (ECDSA scalars with short public coordinates, RSA by DER length mod block size, odd-bit-length RSA). Class(data=k.asbytes()) / msg= / from_type_string == "
+     "k with equal hash, bytes, name, bits, fingerprints per the independent encoder; private, public-only and cert-bearing objects of one key are equal, other and NEAR keys (shared part of the "
+     "public material, or colliding hash() of every number) unequal. In every second case the key gets 2-3 different certificates (built without paramiko; attached by load_certificate / from_path "
+     "or parsed from the blob): all its objects are equal, hash-equal, one set slot; other material carrying a like or the very same certificate is unequal. Written private keys (passphrases incl. "
+     "unicode unstable under NFC/NFD/NFKC/NFKD) load back equal and signing-capable; none / wrong / normalisation-equivalent passphrases never yield a key; 2-3 files written over each other on one "
+     "path load back as just written; new files have no group/other bits under umask 0/022/077. ~450 cases quick, ~40k thorough.",
+     "Ed25519 has no writer in paramiko: only bundled files are used for its passphrase clauses. umask is changed only around the write call (single-threaded) and restored. write_private_key* with "
+     "an empty passphrase may refuse; nothing is asserted about that call. bcrypt.kdf is memoised by the harness. Certificates are not validated here (equality only).")
 _add("C37", "keys+keyedit", "mutation fuzzing (" + PBT + " + coverage-guided atheris in thorough): byte/line/PEM-header/structure-aware container edits and enumerated key-material edits of ~45 seed key files; exception-type + halves-agree oracle",
      "Seeds: 29 bundled files + ~16 written at run time (PEM / OpenSSH container, plain / encrypted, all key types, wrong-type files). 1-4 mutations: byte and line edits, PEM header edits, base64 splices, "
      "edits of decoded DER / OpenSSH container fields, and k-edits of one named key number inside the decrypted private section (flipped, shifted, swapped, 0/1, non-minimal or sign-boundary encodings) with "
@@ -379,66 +429,81 @@ _add("C05", "net+peers+mitm+refssh", PBT + ": generated preference permutations 
      "rotation) runs every time.",
      "Sampled, not exhaustive. The reference sees exactly the bytes on the wire. Host-key category: the server's list is what it advertises (keys it holds and has not disabled). Kex engine class <-> name "
      "goes through a harness-side table.")
-_add("C06", "net+peers+mitm+lying+refkex+refssh", PBT + ": honest sessions over all kex x host-key algorithms with re-exchanges, version strings, preference plans and shaped shared secrets (exchange hash recomputed from the "
-     "independently decrypted wire, signature verified with cryptography) + single alterations of the server's reply in exchange 1..3",
-     "Honest: K and H equal on both peers for every exchange (0-3 re-exchanges), the RFC exchange hash recomputed by the harness from the Tap-decoded wire equals H, the wire signature verifies over H "
-     "under the wire host key with `cryptography` directly, session id = first H. Also against reference servers that send compressed Q_S or steer K to have a leading zero byte / need a sign byte, with "
-     "drawn version strings, and with the (kex, host key) preference changed between exchanges. Faults, one per session, in exchange k = 1 (PlainMitm) or 2-3 (editing server before encryption): bit "
-     "flips in K_S / f / Q_S / signature, substituted values, keys, algorithm names, gex p/g, replayed replies, re-encodings, lying signer; the client must not send a k-th NEWKEYS. Quick ~350 sessions "
+_add("C06", "net+peers+mitm+lying+refkex+refssh", PBT + ": honest sessions over all kex x host-key algorithms with re-exchanges, version strings, preference plans, shaped shared secrets and three client entry APIs (exchange hash recomputed from "
+     "the independently decrypted wire, signature verified with cryptography) + single alterations of the server's reply in exchange 1..3 + whole-server impostors against an expected host key",
+     "Honest: K and H equal on both peers for every exchange (0-3 re-exchanges), the RFC exchange hash recomputed from the Tap-decoded wire equals H, the wire signature verifies over H under the "
+     "wire host key with `cryptography`, session id = first H. Also against reference servers that send compressed Q_S or steer K to a leading zero byte / a sign byte, with drawn version strings, "
+     "(kex, host key) preferences changed between exchanges, the client entered through start_client(), connect() or connect(hostkey=expected). One fault per session in exchange k = 1 (PlainMitm) "
+     "or 2-3 (editing server): bit flips in K_S / f / Q_S / signature, substituted values, keys, algorithm names, gex p/g, replayed replies, re-encodings, lying signer; the client must not send a "
+     "k-th NEWKEYS. Impostor: a whole server holding another key signs consistently; connect(hostkey=genuine) must raise and no authentication attempt reaches the application. Quick ~390 sessions "
      "(every kex and host-key algorithm enumerated); thorough the full 10 x 7 product plus ~110k drawn.",
-     "Only a server can steer K (the client commits first), so with paramiko as server short secrets occur at the natural rate only. A compressed Q_S (optional in RFC 5656) need not be accepted; only "
-     "agreement of the hashes is demanded. A zero-padded f does not change H; accepting it is fine if K and H still agree.")
-_add("C07", "net+peers+mitm+lying", "exhaustive enumeration (finite domain) + " + PBT + " repetitions: role x negotiated/declared algorithm x signature algorithm x enabled subset x exchange number / request history x "
-     "client entry API; lying host key object / hand-built USERAUTH_REQUEST",
-     "For RSA (ssh-rsa, rsa-sha2-256, rsa-sha2-512, cert variants) every (negotiated or declared, signature algorithm, enabled subset) combination, mislabelled hashes, re-labelled ECDSA/Ed25519 signatures "
-     "and foreign key + signature for every ordered pair of the 5 key types. Client verifying the host key: the server starts lying in exchange 1, 2 or 3 after honest ones; entered through start_client, "
-     "connect(hostkey=...) or connect(); plus honest servers offering only a disabled algorithm (no NEWKEYS). Server verifying publickey auth: the request follows 0-2 earlier queries / corrupt requests, "
-     "each judged too. Accepted iff the signature's algorithm equals the negotiated/declared one and is enabled on the verifier. The whole domain (~1100 cases) runs in every tier; thorough adds 48k "
-     "drawn repetitions varying key, user, history, entry and subset.",
-     "exhaustive=true over the stated domain with one key per type and one initiator history per case (the lie starting in exchange 3: every third case). Only RSA certificates are covered for the cert "
-     "variants. The lying server is the non-tested peer (its key object ignores the requested algorithm).")
-_add("C08", "net+peers+mitm", PBT + ": enumerated role x kex x boundary public values x mpint encodings x gex request style, plus drawn random values; delivered by PlainMitm edits, by a lying server holding "
-     "the host key (re-signing predictable-secret replies), or by a harness moduli pack",
+     "Only a server can steer K (the client commits first), so with paramiko as server short secrets occur at the natural rate only. A compressed Q_S (optional in RFC 5656) need not be accepted; "
+     "only agreement of the hashes is demanded. A zero-padded f does not change H; accepting it is fine if K and H still agree. The expected key handed to connect(hostkey=) is a public-only object "
+     "built from the genuine blob.")
+_add("C07", "net+peers+mitm+lying", "exhaustive enumeration (finite domain) + " + PBT + " repetitions: role x negotiated/declared algorithm x signature algorithm x enabled subset x exchange number / request history x client entry API x server application verdict (whole login / "
+     "one step of several); lying host key object / hand-built USERAUTH_REQUEST",
+     "For RSA (ssh-rsa, rsa-sha2-256, rsa-sha2-512, cert variants) every (negotiated or declared, signature algorithm, enabled subset) combination, mislabelled hashes, re-labelled ECDSA/Ed25519 "
+     "signatures and foreign key + signature for every ordered pair of the 5 key types. Client verifying the host key: the server starts lying in exchange 1, 2 or 3 after honest ones; entered "
+     "through start_client, connect(hostkey=...) or connect(); plus honest servers offering only a disabled algorithm (no NEWKEYS). Server verifying publickey auth: the request follows 0-2 earlier "
+     "queries / corrupt requests, each judged too; check_auth_publickey answers AUTH_SUCCESSFUL or AUTH_PARTIALLY_SUCCESSFUL (accepted = USERAUTH_FAILURE with partial_success TRUE), also after an "
+     "accepted genuine step for the same key blob. Accepted iff the signature's algorithm equals the negotiated/declared one and is enabled on the verifier. The whole domain (~1500 cases) runs in "
+     "every tier; thorough adds 48k drawn repetitions varying key, user, history, entry, subset and verdict.",
+     "exhaustive=true over the stated domain with one key per type and one initiator history per case (the lie starting in exchange 3: every third case; an accepted step before every other "
+     "to-be-refused partial-verdict case). Only RSA certificates are covered for the cert variants. The lying server is the non-tested peer (its key object ignores the requested algorithm). A "
+     "server that hangs up on an earlier request of a history ends the case there (counted).")
+_add("C08", "net+peers+mitm+subrun", PBT + ": enumerated role x kex x boundary public values x mpint encodings x gex request style x fixed-group history of the process, plus drawn random values; delivered by PlainMitm edits, by a "
+     "lying server holding the host key (re-signing predictable-secret replies), or by a harness moduli pack; a sub-sample re-run by the same code in a child `python -O` interpreter",
      "DH e/f in {0,1,2,p-2,p-1,p,p+1,2p,2p+1,-p,1-p,-1,random}, also in non-canonical mpint encodings (redundant sign bytes, padded to an in-range length, sign byte stripped); NIST points empty / "
-     "infinity / truncated / wrong prefix / coordinate >= field prime / off-curve / other curve; X25519 small-order encodings and wrong lengths; gex moduli of 512..16384 bits from an honest server's "
-     "moduli pack or from a lying MITM server in any encoding, with new- and old-style GEX requests. Any value outside the accepted domain (classified by the harness from the decoded octets) means no "
-     "NEWKEYS and a failed handshake on the tested side; in-range gex sizes are the control. The boundary list (368 cases quick, more kex methods and every encoding thorough) is enumerated, plus 120 / "
-     "96k drawn values.",
-     "Client role with invalid NIST points: plain unsigned edits, the abort is masked by signature failure (K unpredictable), so that clause is exercised but not sensitive there. Negative gex moduli are "
-     "not generated (endless _generate_x loop, outside the property). In-domain values carry no obligation. The curve25519 zero-check removal is an expected survivor (cryptography itself rejects the all-zero result).")
-_add("C09", "net+peers+mitm+refssh", PBT + "/enumeration: PlainMitm injection at every handshake position x injected message number x role x kex x strict flags x KEXINIT layout + Terrapin inject/delete shapes; "
-     "honest sessions whose every MAC is verified independently by the Tap under the demanded numbering",
+     "infinity / truncated / wrong prefix / coordinate >= field prime / off-curve / other curve; X25519 small-order encodings and wrong lengths; gex moduli of 512..16384 bits from an honest "
+     "server's moduli pack or from a lying MITM server in any encoding, with new- and old-style GEX requests. Any value outside the accepted domain means no NEWKEYS and a failed handshake on the "
+     "tested side; in-range gex sizes are the control. Fixed-group cases form one history per process (quick: every smaller group right after a larger one; thorough: one of 6 orders per worker). A "
+     "sub-sample (77 cases quick, the whole share thorough) also runs in a child `python -O` (asserts stripped). The boundary list (368 cases quick, 1008 thorough) is enumerated, plus 105 / 96k "
+     "drawn values.",
+     "Client role with invalid NIST points: plain unsigned edits, the abort is masked by signature failure (K unpredictable), so that clause is exercised but not sensitive there. Negative gex "
+     "moduli are not generated (endless _generate_x loop, outside the property). In-domain values carry no obligation. A child interpreter that fails, or an honest exchange refused before the "
+     "value under test was sent, is an inconclusive entry, never a verdict. The curve25519 zero-check removal is an expected survivor (cryptography itself rejects the all-zero result).")
+_add("C09", "net+peers+mitm+refssh", PBT + "/enumeration: PlainMitm injection at every handshake position x injected message number x role x kex x strict flags x KEXINIT layout x first_kex_packet_follows guesses + Terrapin "
+     "inject/delete shapes; honest sessions whose every MAC is verified independently by the Tap under the demanded numbering",
      "Both strict: any injected message - IGNORE/DEBUG/UNIMPLEMENTED/unknown/second KEXINIT/SERVICE_REQUEST, and every number 1..49 plus 23 numbers >= 50 with a well-formed body - delivered before "
      "the initial exchange completes ends the connection (only a message of the type awaited at that position carries no obligation). The peer may place its strict marker anywhere in its kex list "
-     "(4 re-laid layouts besides the usual tail position). Terrapin: IGNORE injected before NEWKEYS and/or the first encrypted packet deleted. Un-faulted sessions (strict flags x 5 suites x 0-2 re-exchanges): every MAC verifies under a "
-     "sequence number restarted at 0 after each NEWKEYS iff strict was agreed. Quick enumerates ~800 injection cases (complete for curve25519), thorough the complete product, plus 58 / 37k drawn sessions.",
-     "Strict mode is decided from the wire KEXINITs by membership. Only suites with a sequence-number dependent MAC are used for the seqno oracle (GCM does not depend on the sequence number). Nothing is "
-     "asserted when strict mode was not agreed (outcome counted).")
-_add("C29", "sftpenv+sftpwatch", "fault enumeration: put/putfo/get/getfo/pipelined-file transfers with the k-th (or every) WRITE/READ answered by SFTP error codes or short reads, x interleaved requests x reply reordering; "
-     "enumerated chunk position x code plus hypothesis-sampled cases; exact-or-raises oracle",
-     "Sizes 0..1 MiB dense around 32 KiB / 8 KiB boundaries, prefetch on/off, max_concurrent_prefetch_requests, confirm on/off, short local reads; progress callbacks that issue requests of their own on the "
-     "same client, pipelined-file programs with other requests, set_pipelined switches and the file's own non-write operations between write()s; replies (also the faulted one) held back and delivered after "
-     "later ones. The call raises, or destination bytes == source bytes (size and return value too); a rejected write on a pipelined file surfaces by close(); without a fault that was hit the transfer "
-     "must succeed. Blocked calls are decided by a deadlock proof (or 30 s without link traffic, 3 times). Enumerated: every single failing chunk position x code on files of 1..3 chunks (quick, ~700 cases) "
-     "/ 1..8 (thorough), each also overtaken by later replies; plus 250 / 64k sampled cases.",
-     "exhaustive=true (thorough) for every single failing chunk position x code on files of 1..8 chunks. SFTP_EOF as a read fault, writes acknowledged but not performed and same-size corruption are "
-     "outside the fault model. Reordering changes only the order of complete reply packets; every reply is delivered. The application is single-threaded.",
+     "(4 re-laid layouts) and may set first_kex_packet_follows with a right, wrong-kex or wrong-host-key guess; only kex-method numbers 30..49 directly after such a KEXINIT (the guessed packet) "
+     "are exempt. Terrapin: IGNORE injected before NEWKEYS and/or the first encrypted packet deleted. Un-faulted sessions (strict flags x 5 suites x 0-2 re-exchanges, every layout): every MAC "
+     "verifies under a sequence number restarted at 0 after each NEWKEYS iff strict was agreed. Quick enumerates ~870 injection cases (complete for curve25519), thorough the complete product, plus "
+     "54 / 37k drawn sessions.",
+     "Strict mode and the follows flag are read off the wire KEXINITs (marker by membership). The re-laid / guessing peer is the non-tested side and hashes the KEXINIT it really sent. Only suites "
+     "with a sequence-number dependent MAC are used for the seqno oracle (GCM does not depend on the sequence number). Nothing is asserted when strict mode was not agreed (outcome counted).")
+_add("C29", "sftpenv+sftpwatch", "fault enumeration: put/putfo/get/getfo/pipelined-file transfers with the k-th (or every) WRITE/READ answered by SFTP error codes or short reads, x interleaved requests x reply reordering x "
+     "announced size differing from the source's length; enumerated chunk position x code and announced sizes plus hypothesis-sampled cases; exact-or-raises oracle",
+     "Sizes 0..1 MiB dense around 32 KiB / 8 KiB boundaries, prefetch on/off, max_concurrent_prefetch_requests, confirm on/off, short local reads; progress callbacks issuing requests on the same "
+     "client, pipelined-file programs with other requests, set_pipelined switches and the file's own non-write operations between write()s; replies (also the faulted one) delivered after later "
+     "ones; the announced size (putfo's file_size, the STAT answer for get/getfo, the length put() finds) may differ from the source, which takes its real content at OPEN or grows during the copy. "
+     "The call raises, or destination bytes == source bytes; a rejected write on a pipelined file surfaces by close(); without a fault that was hit the transfer must succeed. Blocked calls are "
+     "decided by a deadlock proof. Enumerated: every failing chunk position x code on files of 1..3 chunks (quick) / 1..8 (thorough), also overtaken by later replies, and fault-free transfers "
+     "under boundary announced sizes (~940 cases quick); plus 250 / 64k sampled.",
+     "exhaustive=true (thorough) for every single failing chunk position x code on files of 1..8 chunks. SFTP_EOF as a read fault, writes acknowledged but not performed and same-size corruption "
+     "are outside the fault model. Reordering changes only the order of complete reply packets; every reply is delivered. Files only shrink before their first read; a source appended to while "
+     "copied may arrive in its old or new state. The application is single-threaded.",
      category="fault_enumeration")
 _add("C30", "sftpenv+sftpwatch", PBT + ": raw-client request-stream fuzzing with backend fault plans against an id-multiset + SFTP v3 allowed-type table + strict response parser; generated single-threaded client programs "
-     "(pipelined writes, positioned read-ahead) with deadlock proof",
-     "(A) streams of <= 28 (thorough 60) requests: all command numbers, live / stale / closed / garbage handles, hostile paths and attrs, truncated/oversized encodings, every extended request, plus served "
-     "handle / interface calls failing at generated requests; every request id answered exactly once with an allowed, strictly parsing type, sentinel answered within 10 s (read-count / stack-sampling "
-     "guards turn non-termination into a verdict). (B) SFTPClient programs mixing pipelined write bursts, set_pipelined switches, other requests, and read-ahead episodes: prefetch / partly consumed readv "
-     "at generated positions (inside, at, past EOF, after truncate) with right / stale / absent file_size, then file operations while replies are outstanding: every call returns or raises, decided by a "
-     "deadlock proof. Quick ~680 cases, thorough ~110k.",
-     "Packets without a complete request id carry no obligation and are not generated; length prefixes are only enlarged or the packet cut. Client programs are single-threaded (prefetch threads are the "
-     "library's own); the server is fault free in (B). Time-based verdicts are re-run twice. While a known defect is present the generator steers around it (counted).")
+     "(pipelined writes, positioned read-ahead, session operations while read-ahead of a big file is in progress) with deadlock proof and per-call request count",
+     "(A) streams of <= 28 (thorough 60) requests: all command numbers, live / stale / closed / garbage handles, hostile paths and attrs, truncated/oversized encodings, every extended request, "
+     "served handle / interface calls failing at generated requests; every request id answered exactly once with an allowed, strictly parsing type, sentinel answered in 10 s (read-count / stack "
+     "guards turn non-termination into a verdict). (B) SFTPClient programs mixing pipelined write bursts, set_pipelined switches, other requests, and read-ahead episodes: prefetch / partly "
+     "consumed readv at generated positions (inside, at, past EOF, after truncate) with right / stale / absent file_size, then file operations while replies are outstanding; or a 1-4 MiB file "
+     "whose read-ahead requests are still being sent while the application calls listdir / listdir_attr / listdir_iter (complete or abandoned), stat, reads or writes on other files. Every call "
+     "returns or raises, decided by a deadlock proof, a settled-link rule, or > 3000 requests for one call. Quick ~710 cases, thorough ~118k.",
+     "Packets without a complete request id carry no obligation and are not generated; length prefixes are only enlarged or the packet cut. Client programs are single-threaded (prefetch threads "
+     "are the library's own); the server is fault free in (B). Verdicts taken by the clock are re-run twice. While a known defect is present the generator steers around it (counted); all four "
+     "recorded ones are fixed in the current tree.")
 
-_add("C38", "net+peers+refssh", "structured protocol fuzzing (" + PBT + "): per-message field grammar + 0-3 mutations, 8 session families, both roles, application calls pending meanwhile; exception-class oracle bucketed by innermost paramiko frame",
-     "Families: pre (harness plays the peer with raw bytes before NEWKEYS: banner lines, KEXINIT, kex messages of every engine, early DISCONNECT), post / postc (authenticated session with open channel, puppet "
-     "sends mutated transport/connection messages, optionally while open_session / exec_command / ... is blocked on the client), reply (one of 15 answer-awaiting calls pending per round; exactly its answer "
-     "is sent with integer-preferring mutations), authc / authk (tested client inside auth_*, incl. scripted keyboard-interactive conversations and both transport classes), auths (tested server, mutated "
-     "SERVICE_REQUEST / USERAUTH_REQUEST / INFO_RESPONSE, pre-auth connection messages), wire (corrupted ciphertext per cipher class, undecompressable zlib). Whatever start_client / start_server / auth_* / "
-     "the pending call raise and every value get_exception() hands out must be SSHException, EOFError or OSError. ~780 scripts quick, ~150k thorough.",
+_add("C38", "net+peers+refssh", "structured protocol fuzzing (" + PBT + "): per-message field grammar + 0-3 mutations, 8 session families with a fixed case share each, both roles, several application calls pending meanwhile (incl. a held re-key), peer DISCONNECT "
+     "endings, enumerated single-text-field sweeps; exception-class oracle bucketed by innermost paramiko frame",
+     "Families: pre (raw bytes before NEWKEYS: banner lines, KEXINIT, kex messages of every engine, early DISCONNECT; every script through the blocking and the event form of start_client / "
+     "start_server), post / postc (authenticated session, puppet sends 1-5 mutated transport/connection messages while 0-3 calls - opens, global and channel requests, renegotiate_keys with the "
+     "exchange held open - wait on the tested side, either role), reply (one of 15 answer-awaiting calls pending per round; exactly its answer is sent with integer-preferring mutations), authc / "
+     "authk (tested client inside auth_*, scripted keyboard-interactive conversations, both transport classes), auths (tested server), wire (corrupted ciphertext per cipher class, undecompressable "
+     "zlib); scripts may end with a mutated peer DISCONNECT. Enumerated sweep: every text field of every connection-stage, authentication-stage and INFO_REQUEST message made undecodable, one at a "
+     "time. Whatever start_client / start_server / auth_* / every pending call raise and every value get_exception() hands out must be SSHException, EOFError or OSError. ~830 scripts quick, ~150k "
+     "thorough.",
      "A 2 s silence after a probe is recorded as inconclusive (hang), never as a violation. Loop-count fields are kept <= 65535 by the value mutation. SSHClient.connect is covered through "
      "Transport.start_client/auth_* (what it delegates to), not called directly. get_exception() is wrapped on the tested instance so that values handed to paramiko's own callers are judged too.")
